@@ -1,26 +1,33 @@
-(* Proofs about the event-level model of host promotion (Promotion.v): C07, the defect S8, and what
-   breaks a second promotion.
+(* Proofs about the event-level model of host promotion (Promotion.v) AFTER THE REPAIR of S9 / half of
+   S8: both handlers of NewHost insert a NEW RenetClient together with the new client transport.
 
    Part 0-1  the enumeration of internal events is complete; [stable] is decidable; soundness of the
-             exhaustive check [checkb] (closed set + decreasing measure + good stable states).
+             exhaustive checks [checkb] (lists) and [checkb_h] (hash table): closed set + decreasing
+             measure + good stable states = [checked].
    Part 2    C07_single_client_promotion, C07_single_client (= C07_statement 1 1): one client, every
-             interleaving, termination measure [measure] (at most 27 events).
-   Part 3    one step seen from one peer (any N, any event): sticky_step, stranded_frozen,
-             stranded_never_connects (the S8 stuck lemma).
-   Part 4    S8: C07_refuted_two_clients (witness + stuck), C07_statement_two_clients_false,
-             C07_two_clients_every_run / C07_three_clients_every_run (NO interleaving succeeds).
-   Part 5    invariants for every N: promotion_preserves_roles_invariant (any events),
-             hosting/flag "change only at" lemmas, window_step / hosting_after_promotion (a promoted
-             peer that hosts keeps hosting), channel shapes, single_promotion_invariant [spi]
-             (at most two hosts, the one Promote, only NewHost(k) relayed, other clients untouched or
-             stranded, nobody but the old host ever joins the new one), at_most_two_hosts,
-             promoted_host_keeps_hosting, C07_never_with_more_clients (S8 for every n >= 2).
-   Part 6    C07_chain_of_promotions (the swap back works iff the first promoted peer's RenetClient
-             survived the kick), C07_chain_refuted.
+             interleaving, termination measure [measure] (at most 36 events).
+   Part 3    one step seen from one peer (any N, any event): sticky_resets_only_by_newhost,
+             stranded_frozen, stranded_never_connects (a peer with a dead RenetClient, ClientState
+             Connected and no server can never have it replaced).
+   Part 4    invariants for every N: promotion_preserves_roles_invariant (any events), hosting/flag
+             "change only at" lemmas, window_step / hosting_after_promotion, hosting_without_flag,
+             channel shapes, single_promotion_invariant [spi] (at most two hosts, the one Promote, only
+             NewHost(k) relayed, other clients untouched or MOVED to k with a RenetClient that stays
+             alive and a flag that stays set), at_most_two_hosts, promoted_host_keeps_hosting,
+             C07_never_with_more_clients (the full goal is never reached for n >= 2: the flag),
+             old_host_keeps_hosting (the rest of S8 for every n: once verify_client_connected has
+             consumed the old host's flag while it still has its server, it hosts for ever).
+   Part 5    two and three clients, every interleaving: C07_two_clients_every_run_repaired,
+             C07_three_clients_every_run_repaired (all stable ends: everybody a connected client of
+             the new host, which hosts exactly all other peers; the old host has closed its server
+             OR keeps it), C07_refuted_two_clients, C07_statement_two_clients_false,
+             C07_roles_refuted_two_clients.
+   Part 6    S9 repaired: C07_chain_of_promotions_repaired (three promotions), C07_chain
+             (= C07_chain_statement), C07_chain_forever (chains of any length).
 
    Open: the decrease of [measure] is proved on the complete reachable sets for 2, 3 and 4 peers
-   (by computation), not for arbitrary n; for arbitrary n "every stable state has all other clients
-   stranded" is proved as a safety property (untouched or stranded at every point), not as liveness. *)
+   (by computation), not for arbitrary n; for arbitrary n "every other client ends up connected to
+   the new host" is proved as a safety property (untouched or moved at every point), not as liveness. *)
 From Coq Require Import NArith List Lia.
 From stdpp Require Import gmap list.
 From RecordUpdate Require Import RecordSet.
@@ -120,25 +127,58 @@ Qed.
 Lemma inb_true s R : inb s R = true <-> s ∈ R.
 Proof. unfold inb. apply bool_decide_eq_true. Qed.
 
+(* what a successful check establishes: R is closed under internal events, every such event decreases
+   the measure, and every stable state of R is good *)
+Definition checked (good : pstate -> bool) (R : list pstate) : Prop :=
+  forall s, s ∈ R ->
+    (forall e s', internal e = true -> step s e = Some s' -> s' ∈ R /\ (measure s' < measure s)%nat) /\
+    (stable s -> good s = true).
+
+Lemma checkb_checked good R : checkb good R = true -> checked good R.
+Proof.
+  unfold checkb. rewrite forallb_forall. intros Hc s Hin.
+  specialize (Hc s (proj1 (elem_of_list_In _ _) Hin)). apply andb_true_iff in Hc as [Hc Hg]. split.
+  - intros e s' Hi Hs. rewrite forallb_forall in Hc.
+    specialize (Hc e (proj1 (elem_of_list_In _ _) (events_of_complete _ _ _ Hi Hs))).
+    rewrite Hs in Hc. apply andb_true_iff in Hc as [H1 H2]. split; [apply inb_true; exact H1|apply Nat.ltb_lt; exact H2].
+  - intros Hst. apply orb_true_iff in Hg as [Hg|Hg]; [|exact Hg].
+    apply stableb_true in Hst. rewrite Hst in Hg. discriminate.
+Qed.
+
+(* the hash table: a bucket holds only states that were added *)
+Lemma tmem_tadd s a (T : gmap N (list pstate)) : tmem s (tadd a T) = true -> s = a \/ tmem s T = true.
+Proof.
+  unfold tmem, tadd. rewrite !bool_decide_eq_true. destruct (decide (hkey a = hkey s)) as [E|E].
+  - rewrite E, lookup_insert. simpl. intros Hin. apply elem_of_cons in Hin as [->|Hin]; [left; reflexivity|right; exact Hin].
+  - rewrite lookup_insert_ne by exact E. intros Hin. right. exact Hin.
+Qed.
+Lemma tmem_foldr s R : tmem s (foldr tadd ∅ R) = true -> s ∈ R.
+Proof.
+  induction R as [|a R IH]; simpl.
+  - unfold tmem. rewrite lookup_empty. intros H. apply bool_decide_eq_true in H. simpl in H. inversion H.
+  - intros H. apply tmem_tadd in H as [->|H]; [left|right; apply IH; exact H].
+Qed.
+
+Lemma checkb_h_checked good R : checkb_h good R = true -> checked good R.
+Proof.
+  unfold checkb_h. cbv zeta. rewrite forallb_forall. intros Hc s Hin.
+  specialize (Hc s (proj1 (elem_of_list_In _ _) Hin)). apply andb_true_iff in Hc as [Hc Hg]. split.
+  - intros e s' Hi Hs. rewrite forallb_forall in Hc.
+    specialize (Hc e (proj1 (elem_of_list_In _ _) (events_of_complete _ _ _ Hi Hs))).
+    rewrite Hs in Hc. apply andb_true_iff in Hc as [H1 H2]. split; [apply tmem_foldr; exact H1|apply Nat.ltb_lt; exact H2].
+  - intros Hst. apply orb_true_iff in Hg as [Hg|Hg]; [|exact Hg].
+    apply stableb_true in Hst. rewrite Hst in Hg. discriminate.
+Qed.
+
 Lemma check_step good R s e s' :
-  checkb good R = true -> s ∈ R -> internal e = true -> step s e = Some s' ->
+  checked good R -> s ∈ R -> internal e = true -> step s e = Some s' ->
   s' ∈ R /\ (measure s' < measure s)%nat.
-Proof.
-  unfold checkb. rewrite forallb_forall. intros Hc Hin Hi Hs.
-  specialize (Hc s (proj1 (elem_of_list_In _ _) Hin)). apply andb_true_iff in Hc as [Hc _].
-  rewrite forallb_forall in Hc. specialize (Hc e (proj1 (elem_of_list_In _ _) (events_of_complete _ _ _ Hi Hs))).
-  rewrite Hs in Hc. apply andb_true_iff in Hc as [H1 H2]. split; [apply inb_true; exact H1|apply Nat.ltb_lt; exact H2].
-Qed.
+Proof. intros Hc Hin Hi Hs. exact (proj1 (Hc s Hin) e s' Hi Hs). Qed.
 
-Lemma check_stable good R s : checkb good R = true -> s ∈ R -> stable s -> good s = true.
-Proof.
-  unfold checkb. rewrite forallb_forall. intros Hc Hin Hst.
-  specialize (Hc s (proj1 (elem_of_list_In _ _) Hin)). apply andb_true_iff in Hc as [_ Hc].
-  apply orb_true_iff in Hc as [Hc|Hc]; [|exact Hc].
-  apply stableb_true in Hst. rewrite Hst in Hc. discriminate.
-Qed.
+Lemma check_stable good R s : checked good R -> s ∈ R -> stable s -> good s = true.
+Proof. intros Hc Hin Hst. exact (proj2 (Hc s Hin) Hst). Qed.
 
-Lemma check_run good R : checkb good R = true -> forall tr s s',
+Lemma check_run good R : checked good R -> forall tr s s',
   s ∈ R -> all_internal tr -> run s tr = Some s' -> s' ∈ R /\ (length tr + measure s' <= measure s)%nat.
 Proof.
   intros Hc tr. induction tr as [|e tr IH]; intros s s' Hin Hall Hrun; simpl in Hrun.
@@ -150,40 +190,30 @@ Proof.
 Qed.
 
 (* every run can be completed to a stable state (inside a checked set) *)
-Lemma check_completes good R : checkb good R = true -> forall s, s ∈ R ->
-  exists tr s', all_internal tr /\ run s tr = Some s' /\ stable s' /\ good s' = true.
+Lemma check_completes good R : checked good R -> forall s, s ∈ R ->
+  exists tr s', all_internal tr /\ run s tr = Some s' /\ stable s' /\ s' ∈ R /\ good s' = true.
 Proof.
   intros Hc s. remember (measure s) as m eqn:Hm. revert s Hm.
   induction m as [m IH] using lt_wf_ind. intros s -> Hin.
   destruct (decide (stable s)) as [Hst|Hn].
-  - exists [], s. split; [constructor|]. split; [reflexivity|]. split; [exact Hst|]. eapply check_stable; eauto.
+  - exists [], s. split; [constructor|]. split; [reflexivity|]. split; [exact Hst|]. split; [exact Hin|]. eapply check_stable; eauto.
   - destruct (not_stable _ Hn) as (e & s1 & Hi & Hs).
     destruct (check_step _ _ _ _ _ Hc Hin Hi Hs) as [Hin1 Hlt].
-    destruct (IH _ Hlt s1 eq_refl Hin1) as (tr & s' & Hall & Hrun & Hst & Hg).
+    destruct (IH _ Hlt s1 eq_refl Hin1) as (tr & s' & Hall & Hrun & Hst & Hin' & Hg).
     exists (e :: tr), s'. split; [constructor; assumption|]. split; [simpl; rewrite Hs; exact Hrun|]. auto.
 Qed.
 
 Lemma run_app s tr1 tr2 : run s (tr1 ++ tr2) = match run s tr1 with Some s1 => run s1 tr2 | None => None end.
 Proof. revert s. induction tr1 as [|e tr1 IH]; intros s; simpl; [reflexivity|]. destruct (step s e); [apply IH|reflexivity]. Qed.
 
+Lemma all_internal_app tr1 tr2 : all_internal tr1 -> all_internal tr2 -> all_internal (tr1 ++ tr2).
+Proof. unfold all_internal. intros H1 H2. apply Forall_app. split; assumption. Qed.
+
 Lemma handed_overb_true s h c : handed_overb s h c = true -> handed_over s h c.
 Proof.
   unfold handed_overb, handed_over, no_traffic. destruct (ps s !! h) as [x|]; [|discriminate].
   destruct (ps s !! c) as [y|]; [|discriminate].
   rewrite !andb_true_iff, !bool_decide_eq_true. intros [[[[[H1 H2] H3] H4] H5] H6]. eauto 10.
-Qed.
-
-Lemma chain_brokenb_true s h k : chain_brokenb s h k = true -> chain_broken s h k.
-Proof.
-  unfold chain_brokenb, chain_broken, no_traffic. destruct (ps s !! k) as [x|]; [|discriminate].
-  destruct (ps s !! h) as [y|]; [|discriminate].
-  rewrite !andb_true_iff, !bool_decide_eq_true. intros [[[[H1 H2] H3] H4] H5]. split; [|auto]. exists x, y. tauto.
-Qed.
-
-Lemma s8_outcomeb_true s : s8_outcomeb s = true -> s8_outcome s.
-Proof.
-  unfold s8_outcomeb, s8_outcome. repeat case_match; try discriminate.
-  rewrite bool_decide_eq_true. intros Hb. eexists _, _, _. tauto.
 Qed.
 
 (* ================================================================================================
@@ -196,12 +226,14 @@ Proof. apply handed_overb_true. vm_compute. reflexivity. Qed.
 Example promoted_1_1 : step (session 1) (EPromote 0 1) = Some (promoted 1 1) /\ promoted 1 1 = push_down (session 1) 0 1 Promote.
 Proof. split; vm_compute; reflexivity. Qed.
 
-(* all states reachable after the request, computed *)
+(* all states reachable after the request, computed (67 states) *)
 Definition R1 : list pstate := default [] (explore 1000 [promoted 1 1] []).
-Lemma R1_checked : checkb (fun s => handed_overb s 1 0 && bool_decide (session_ok s 1)) R1 = true.
-Proof. vm_cast_no_check (eq_refl true). Qed.
+Lemma R1_checked : checked (fun s => handed_overb s 1 0 && bool_decide (session_ok s 1)) R1.
+Proof. apply checkb_checked. vm_cast_no_check (eq_refl true). Qed.
 Lemma R1_start : promoted 1 1 ∈ R1.
 Proof. apply inb_true. vm_compute. reflexivity. Qed.
+Example R1_size : length R1 = 67%nat.
+Proof. vm_compute. reflexivity. Qed.
 
 Theorem C07_single_client_promotion :
   forall tr s, all_internal tr -> run (promoted 1 1) tr = Some s ->
@@ -220,7 +252,7 @@ Proof.
     exact (proj1 (proj1 (andb_true_iff _ _) (check_stable _ _ _ R1_checked Hin Hst))).
   - intros Hn. destruct (not_stable _ Hn) as (e & s' & Hi & Hs). exists e, s'.
     split; [exact Hi|]. split; [exact Hs|]. exact (proj2 (check_step _ _ _ _ _ R1_checked Hin Hi Hs)).
-  - destruct (check_completes _ _ R1_checked _ Hin) as (tr' & s' & H1 & H2 & H3 & H4).
+  - destruct (check_completes _ _ R1_checked _ Hin) as (tr' & s' & H1 & H2 & H3 & _ & H4).
     exists tr', s'. split; [exact H1|]. split; [exact H2|]. split; [exact H3|]. apply handed_overb_true.
     exact (proj1 (proj1 (andb_true_iff _ _) H4)).
 Qed.
@@ -233,12 +265,13 @@ Proof.
   pose proof (check_stable _ _ _ R1_checked Hin Hst) as Hg. apply andb_true_iff in Hg as [_ Hg].
   apply bool_decide_eq_true in Hg. exact Hg.
 Qed.
+Print Assumptions C07_single_client.
 
-Example measure_promoted_1_1 : measure (promoted 1 1) = 27%nat.
+Example measure_promoted_1_1 : measure (promoted 1 1) = 36%nat.
 Proof. vm_compute. reflexivity. Qed.
 
-(* no run after the request has more than 27 events *)
-Corollary C07_single_client_bound tr s : all_internal tr -> run (promoted 1 1) tr = Some s -> (length tr <= 27)%nat.
+(* no run after the request has more than 36 events *)
+Corollary C07_single_client_bound tr s : all_internal tr -> run (promoted 1 1) tr = Some s -> (length tr <= 36)%nat.
 Proof. intros Ha Hr. destruct (C07_single_client_promotion _ _ Ha Hr) as [H _]. rewrite measure_promoted_1_1 in H. lia. Qed.
 
 (* ================================================================================================
@@ -278,12 +311,33 @@ Ltac ins_cases :=
          end.
 
 
-(* the RenetClient object is never reconstructed: no event resets [sticky] *)
-Lemma sticky_step s e s' p : step s e = Some s' -> pget sticky false s p = true -> pget sticky false s' p = true.
+Ltac pssimpl_in H :=
+  repeat first [ rewrite ps_relay in H | rewrite ps_drop_link_of in H | rewrite ps_drop_link in H | rewrite ps_push_up in H
+               | rewrite ps_push_down in H | rewrite ps_setp in H | rewrite ps_mk in H ].
+Ltac ins_cases_in H :=
+  repeat match type of H with
+         | context [<[?a := _]> _ !! ?p] =>
+             destruct (decide (a = p)) as [->|?];
+             [rewrite lookup_insert in H | rewrite lookup_insert_ne in H by assumption]
+         end.
+Ltac use_lookups :=
+  repeat match goal with
+         | H : ps ?s !! ?q = Some _, H' : context [ps ?s !! ?q] |- _ =>
+             lazymatch type of H' with ps s !! q = Some _ => fail | _ => rewrite H in H' end
+         end.
+
+(* after the repair a dead RenetClient is replaced in exactly two places: the two handlers of NewHost *)
+Lemma sticky_resets_only_by_newhost s e s' p :
+  step s e = Some s' -> pget sticky false s p = true -> pget sticky true s' p = false ->
+  (exists h q, e = EDeliverDown h p /\ head (chan (down s) h p) = Some (NewHost q)) \/
+  (exists c q, e = EDeliverUp c p /\ head (chan (up s) c p) = Some (NewHost q)).
 Proof.
-  intros Hs Hp. unfold pget in *. destruct e; step_inv Hs; pssimpl; ins_cases;
-    repeat match goal with H : ps s !! ?q = Some _, H' : context [ps s !! ?q] |- _ => rewrite H in H' end;
-    simpl; try assumption; try reflexivity.
+  intros Hs H1 H2. unfold pget in *.
+  destruct e; step_inv Hs; pssimpl_in H2; ins_cases_in H2; use_lookups; simpl in *; try congruence;
+    try (destruct (ps s !! p) eqn:?; congruence).
+  all: match goal with H : chan _ _ _ = _ |- _ =>
+         first [ left; eexists _, _; split; [reflexivity|]; rewrite H; reflexivity
+               | right; eexists _, _; split; [reflexivity|]; rewrite H; reflexivity ] end.
 Qed.
 
 Ltac bool_hyps :=
@@ -316,8 +370,9 @@ Proof.
   match goal with H : is_cdisc (cli_state _) = true |- _ => rewrite S4 in H; discriminate end.
 Qed.
 
-(* S8, the stuck lemma: once stranded, for ever stranded -- whatever happens afterwards, new
-   promotions by the application included, in a session of any size *)
+(* the stuck lemma (still true after the repair): once stranded, for ever stranded -- whatever
+   happens afterwards, new promotions by the application included, in a session of any size.
+   After the repair nobody gets stranded in a single promotion any more: no_client_stranded (Part 4) *)
 Lemma stranded_step s e s' p : step s e = Some s' -> strandedP s p -> strandedP s' p.
 Proof.
   intros Hs Hp. unfold strandedP, pget in *. destruct (ps s !! p) as [xp|] eqn:Hxp; [|contradiction].
@@ -331,14 +386,10 @@ Proof.
   - destruct (step s e) as [s1|] eqn:Hs; [|discriminate]. eapply IH; [exact Hrun|]. eapply stranded_step; eauto.
 Qed.
 
-Lemma sticky_run tr : forall s s' p, run s tr = Some s' -> pget sticky false s p = true -> pget sticky false s' p = true.
-Proof.
-  induction tr as [|e tr IH]; intros s s' p Hrun Hp; simpl in Hrun.
-  - inversion Hrun; subst. exact Hp.
-  - destruct (step s e) as [s1|] eqn:Hs; [|discriminate]. eapply IH; [exact Hrun|]. eapply sticky_step; eauto.
-Qed.
 
-(* in particular a stranded client is never linked again and never leaves ClientState::Connected *)
+(* in particular a stranded peer is never linked again and never leaves ClientState::Connected: it can
+   handle neither a downstream NewHost (needs a live link) nor an upstream one (needs a server), so
+   its dead RenetClient is never replaced -- whatever happens, new promotions included *)
 Corollary stranded_never_connects tr s s' p :
   run s tr = Some s' -> strandedP s p ->
   exists x, ps s' !! p = Some x /\ link_up x = false /\ cli_state x = CConnected /\ sticky x = true.
@@ -349,137 +400,9 @@ Qed.
 Print Assumptions stranded_never_connects.
 
 (* ================================================================================================
-   Part 4: S8 -- promotion with TWO clients
+   Part 4: invariants for sessions of ANY size
    ================================================================================================ *)
 
-Example session_2_roles :
-  roles (session 2) = [(0, (true, SConnected, [1; 2], None, CDisconnected, false, false, false));
-                       (1, (false, SDisconnected, [], Some 0, CConnected, true, false, false));
-                       (2, (false, SDisconnected, [], Some 0, CConnected, true, false, false))].
-Proof. vm_compute. reflexivity. Qed.
-
-(* the witness run of Promotion.v (without its first event, the request itself) *)
-Definition s8_run : list pevent := tail ex_two_clients.
-Definition s8_state : pstate := default (session 2) (run (promoted 2 1) s8_run).
-
-Example s8_run_runs : all_internal s8_run /\ run (promoted 2 1) s8_run = Some s8_state.
-Proof. split; [unfold all_internal; repeat constructor|vm_compute; reflexivity]. Qed.
-Example s8_state_roles :
-  roles s8_state = [(0, (true, SConnected, [], Some 1, CConnected, true, false, false));
-                    (1, (true, SConnected, [0], None, CDisconnected, false, true, false));
-                    (2, (false, SDisconnected, [], Some 1, CConnected, false, true, true))]
-  /\ enabled s8_state = [] /\ no_traffic s8_state.
-Proof.
-  split; [vm_compute; reflexivity|]. split; [vm_compute; reflexivity|].
-  split; apply (bool_decide_unpack _); vm_compute; exact I.
-Qed.
-
-Theorem C07_refuted_two_clients :
-  exists tr s,
-    all_internal tr /\ run (promoted 2 1) tr = Some s /\
-    stable s /\                                  (* nothing will happen any more *)
-    hosts s = [0; 1] /\                          (* two peers host *)
-    s8_outcome s /\ strandedP s 2 /\             (* 2: ClientState Connected, RenetClient dead *)
-    (forall tr' s', run s tr' = Some s' ->       (* and no continuation whatsoever repairs it *)
-       exists x, ps s' !! 2 = Some x /\ link_up x = false /\ cli_state x = CConnected /\ sticky x = true).
-Proof.
-  exists s8_run, s8_state. destruct s8_run_runs as [Ha Hr].
-  assert (Hst : strandedP s8_state 2).
-  { unfold strandedP, pget. vm_compute. repeat split; eauto. }
-  split; [exact Ha|]. split; [exact Hr|]. split; [apply stableb_true; vm_compute; reflexivity|].
-  split; [vm_compute; reflexivity|]. split; [apply s8_outcomeb_true; vm_compute; reflexivity|].
-  split; [exact Hst|]. intros tr' s' Hrun. eapply stranded_never_connects; eauto.
-Qed.
-Print Assumptions C07_refuted_two_clients.
-
-Corollary C07_statement_two_clients_false : ~ C07_statement 2 1.
-Proof.
-  intros H. destruct C07_refuted_two_clients as (tr & s & Ha & Hr & Hst & Hh & _).
-  destruct (H tr s Ha Hr Hst) as [Hh' _]. rewrite Hh in Hh'. discriminate.
-Qed.
-
-(* stronger: with two clients NO interleaving succeeds.  Every run terminates, and every run that
-   cannot be continued ends with 0 moved over to 1 and 2 stranded *)
-Definition R2 : list pstate := default [] (explore (100 * 100) [promoted 2 1] []).
-Lemma R2_checked : checkb s8_outcomeb R2 = true.
-Proof. vm_cast_no_check (eq_refl true). Qed.
-Lemma R2_start : promoted 2 1 ∈ R2.
-Proof. apply inb_true. vm_compute. reflexivity. Qed.
-
-Theorem C07_two_clients_every_run :
-  forall tr s, all_internal tr -> run (promoted 2 1) tr = Some s ->
-    (length tr + measure s <= measure (promoted 2 1%N))%nat
-    /\ (stable s -> s8_outcome s /\ strandedP s 2 /\ ~ session_ok s 1)
-    /\ (exists tr' s', all_internal tr' /\ run s tr' = Some s' /\ stable s' /\ s8_outcome s').
-Proof.
-  intros tr s Hall Hrun.
-  destruct (check_run _ _ R2_checked _ _ _ R2_start Hall Hrun) as [Hin Hle].
-  split; [exact Hle|]. split.
-  - intros Hst. pose proof (s8_outcomeb_true _ (check_stable _ _ _ R2_checked Hin Hst)) as Ho.
-    split; [exact Ho|]. destruct Ho as (x0 & x1 & x2 & H0 & H1 & H2 & Hs2 & Hrest).
-    split; [unfold strandedP, pget; rewrite H2; exact Hs2|].
-    intros [_ Hok]. destruct (Hok 2 x2 H2 ltac:(discriminate)) as (_ & Hl & _).
-    destruct Hs2 as (_ & _ & Hl' & _). congruence.
-  - destruct (check_completes _ _ R2_checked _ Hin) as (tr' & s' & H1 & H2 & H3 & H4).
-    exists tr', s'. split; [exact H1|]. split; [exact H2|]. split; [exact H3|]. apply s8_outcomeb_true. exact H4.
-Qed.
-Print Assumptions C07_two_clients_every_run.
-
-(* the same with THREE clients (4 peers, 1561 reachable states): every run terminates, and every run
-   that cannot be continued ends with 0 moved over to 1 and BOTH other clients stranded *)
-Definition three_clients_outcome (s : pstate) : Prop :=
-  exists x0 x1 x2 x3, ps s !! (0 : peer) = Some x0 /\ ps s !! (1 : peer) = Some x1 /\
-    ps s !! (2 : peer) = Some x2 /\ ps s !! (3 : peer) = Some x3 /\
-    stranded x2 /\ stranded x3 /\ hosting x1 = true /\ clients x1 = [0] /\
-    client_of x0 = Some 1 /\ link_up x0 = true /\ cli_state x0 = CConnected.
-Definition three_clients_outcomeb (s : pstate) : bool :=
-  match ps s !! (0 : peer), ps s !! (1 : peer), ps s !! (2 : peer), ps s !! (3 : peer) with
-  | Some x0, Some x1, Some x2, Some x3 =>
-      bool_decide (stranded x2 /\ stranded x3 /\ hosting x1 = true /\ clients x1 = [0] /\
-                   client_of x0 = Some 1 /\ link_up x0 = true /\ cli_state x0 = CConnected)
-  | _, _, _, _ => false
-  end.
-Lemma three_clients_outcomeb_true s : three_clients_outcomeb s = true -> three_clients_outcome s.
-Proof.
-  unfold three_clients_outcomeb, three_clients_outcome. repeat case_match; try discriminate.
-  rewrite bool_decide_eq_true. intros Hb. eexists _, _, _, _. tauto.
-Qed.
-Definition R3 : list pstate := default [] (explore (200 * 100) [promoted 3 1] []).
-Lemma R3_checked : inb (promoted 3 1) R3 && checkb three_clients_outcomeb R3 = true.
-Proof. vm_cast_no_check (eq_refl true). Qed.
-
-Theorem C07_three_clients_every_run :
-  forall tr s, all_internal tr -> run (promoted 3 1) tr = Some s ->
-    (length tr + measure s <= measure (promoted 3 1%N))%nat
-    /\ (stable s -> three_clients_outcome s)
-    /\ (exists tr' s', all_internal tr' /\ run s tr' = Some s' /\ stable s' /\ three_clients_outcome s').
-Proof.
-  intros tr s Hall Hrun. pose proof R3_checked as Hc. apply andb_true_iff in Hc as [Hs0 Hc]. apply inb_true in Hs0.
-  destruct (check_run _ _ Hc _ _ _ Hs0 Hall Hrun) as [Hin Hle].
-  split; [exact Hle|]. split.
-  - intros Hst. apply three_clients_outcomeb_true. exact (check_stable _ _ _ Hc Hin Hst).
-  - destruct (check_completes _ _ Hc _ Hin) as (tr' & s' & H1 & H2 & H3 & H4).
-    exists tr', s'. split; [exact H1|]. split; [exact H2|]. split; [exact H3|]. apply three_clients_outcomeb_true. exact H4.
-Qed.
-Print Assumptions C07_three_clients_every_run.
-
-(* both endings occur: the old host closes its server (its last ClientDisconnected arrived while
-   the flag was still set) or keeps it for ever (verify_client_connected consumed the flag first) *)
-Example s8_other_ending :
-  (fun s => (hosts s, stableb s, s8_outcomeb s)) <$>
-  run (promoted 2 1) [EDeliverDown 0 1; ESrvUp 1; EDeliverUp 1 0; ENotify 0; EDeliverDown 0 2; ETimeout 0 2; ENotify 0;
-                      ESrvDown 0; ECliConnecting 0; ECliConnecting 2; EConnect 0; ENotify 1; ECliDown 1; EVerify 0;
-                      EDeliverUp 0 1]
-  = Some ([1], true, true).
-Proof. vm_compute. reflexivity. Qed.
-
-(* ================================================================================================
-   Part 5: invariants for sessions of ANY size
-   ================================================================================================ *)
-
-Ltac pssimpl_in H :=
-  repeat first [ rewrite ps_relay in H | rewrite ps_drop_link_of in H | rewrite ps_drop_link in H | rewrite ps_push_up in H
-               | rewrite ps_push_down in H | rewrite ps_setp in H | rewrite ps_mk in H ].
 
 Lemma NoDup_without c l : NoDup l -> NoDup (without c l).
 Proof. intros H. unfold without. apply NoDup_filter. exact H. Qed.
@@ -618,17 +541,6 @@ Proof.
       split; [exact Hh|]. rewrite decide_True by reflexivity. eauto.
 Qed.
 
-Ltac ins_cases_in H :=
-  repeat match type of H with
-         | context [<[?a := _]> _ !! ?p] =>
-             destruct (decide (a = p)) as [->|?];
-             [rewrite lookup_insert in H | rewrite lookup_insert_ne in H by assumption]
-         end.
-Ltac use_lookups :=
-  repeat match goal with
-         | H : ps ?s !! ?q = Some _, H' : context [ps ?s !! ?q] |- _ =>
-             lazymatch type of H' with ps s !! q = Some _ => fail | _ => rewrite H in H' end
-         end.
 
 (* the flag and the server transport change only at well-defined events *)
 Lemma hosting_rises_only_by_promote s e s' p :
@@ -903,7 +815,8 @@ Lemma untouched_self s e s' c x :
     ((hosting x' = false /\ client_of x' = Some host /\ link_up x' = true /\ cli_state x' = CConnected /\ cli_removed x' = false)
      \/ (e = EDeliverDown host c /\ head (chan (down s) host c) = Some Promote)
      \/ (exists q, e = EDeliverDown host c /\ head (chan (down s) host c) = Some (NewHost q) /\
-                   stranded x' /\ client_of x' = Some q /\ flag x' = true)).
+                   hosting x' = false /\ client_of x' = Some q /\ cli_state x' = CConnected /\ cli_removed x' = false /\
+                   sticky x' = false /\ flag x' = true /\ link_up x' = false)).
 Proof.
   intros Hs Hx (U1 & U2 & U3 & U4 & U5 & x0 & U6 & U7 & U8) Hc.
   destruct e; step_inv Hs; pssimpl; ins_cases; same_lookup; rewrite ?Hx; bool_hyps;
@@ -916,7 +829,7 @@ Proof.
               end; same_lookup.
   - eexists; split; [reflexivity|]. right; left. split; [reflexivity|]. match goal with H : chan _ _ _ = _ |- _ => rewrite H end. reflexivity.
   - eexists; split; [reflexivity|]. right; right. eexists. split; [reflexivity|]. split; [match goal with H : chan _ _ _ = _ |- _ => rewrite H end; reflexivity|].
-    unfold stranded; simpl. split_and?; eauto.
+    simpl. split_and?; eauto.
   - match goal with H : is_cdisc (cli_state _) = true |- _ => rewrite U4 in H; discriminate end.
   - exfalso. match goal with H : _ || _ = true |- _ => apply orb_true_iff in H as [H|H] end; bool_hyps; congruence.
 Qed.
@@ -947,12 +860,89 @@ Qed.
 Lemma pget_Some {A} (f : ppeer -> A) d s p x : ps s !! p = Some x -> pget f d s p = f x.
 Proof. intros H. unfold pget. rewrite H. reflexivity. Qed.
 
+Ltac same_target :=
+  repeat match goal with
+         | H1 : client_of ?y = Some ?a, H2 : client_of ?y = Some ?b |- _ =>
+             rewrite H1 in H2; injection H2 as H2; first [subst a | subst b | (constr_eq a b; clear H2)]
+         end.
+
+(* what can happen to a client that has moved over to k, seen from that client: nothing, except that
+   it connects.  (No message reaches it from k; it has no server; its link, once up, cannot go down
+   because k hosts and has it in its client table.) *)
+Lemma moved_self s e s' k c x :
+  step s e = Some s' -> ps s !! c = Some x -> c <> k ->
+  hosting x = false -> client_of x = Some k -> cli_state x = CConnected -> cli_removed x = false ->
+  sticky x = false -> flag x = true -> srv_added x = false ->
+  (link_up x = true -> pget hosting false s k = true /\ c ∈ pget clients [] s k) ->
+  chan (down s) k c = [] ->
+  exists x', ps s' !! c = Some x' /\ hosting x' = false /\ client_of x' = Some k /\ cli_state x' = CConnected /\
+    cli_removed x' = false /\ sticky x' = false /\ flag x' = true /\
+    (link_up x' = true -> link_up x = true \/ e = EConnect c).
+Proof.
+  intros Hs Hx Hck M1 M2 M3 M4 M5 M6 M7 M8 M9. unfold pget in M8.
+  destruct e; step_inv Hs; pssimpl; ins_cases; same_lookup; rewrite ?Hx; bool_hyps;
+    unfold srv_gate, cli_gate in *; simpl; bool_hyps;
+    try (eexists; split; [reflexivity|]; simpl; split_and?; (assumption || reflexivity || (intros; left; assumption) || eauto));
+    try congruence.
+  all: same_target; same_lookup; try congruence.
+  all: try (match goal with H : is_cdisc (cli_state _) = true |- _ => rewrite M3 in H; discriminate end).
+  all: try (match goal with H : is_cconnecting (cli_state _) = true |- _ => rewrite M3 in H; discriminate end).
+  exfalso. match goal with H : link_up _ = true |- _ => destruct (M8 H) as [Mh Mc] end.
+  match goal with H : ps s !! _ = Some ?xk, H' : _ || _ = true |- _ =>
+    rewrite H in Mh; rewrite H in Mc; apply orb_true_iff in H' as [H'|H'] end; bool_hyps; congruence.
+Qed.
+
+(* a server forgets a client only by time-out (of a client that is not linked to it) or because that
+   client announces itself as the new host *)
+Lemma clients_shrink_only s e s' h x x' c :
+  step s e = Some s' -> ps s !! h = Some x -> ps s' !! h = Some x' -> c ∈ clients x -> c ∉ clients x' ->
+  (e = ETimeout h c /\ ~ (pget client_of None s c = Some h /\ pget link_up false s c = true)) \/
+  (exists q, e = EDeliverUp c h /\ head (chan (up s) c h) = Some (NewHost q)).
+Proof.
+  intros Hs Hx Hx' Hin Hnin. unfold pget.
+  destruct e; step_inv Hs; pssimpl_in Hx'; ins_cases_in Hx'; same_lookup; rewrite ?Hx in *; simplify_eq; simpl in *;
+    try contradiction; try (exfalso; apply Hnin; apply elem_of_app; left; exact Hin).
+  all: rewrite elem_of_without in Hnin.
+  all: match goal with |- context [ETimeout ?a ?b] => destruct (decide (c = b)) as [->|Hne]
+                     | |- context [EDeliverUp ?a ?b] => destruct (decide (c = a)) as [->|Hne] end;
+       try (exfalso; apply Hnin; split; assumption).
+  all: try (right; eexists; split; [reflexivity|]; match goal with H : chan _ _ _ = _ |- _ => rewrite H end; reflexivity).
+  left. split; [reflexivity|]. bool_hyps.
+  repeat match goal with H : ps s !! _ = Some _ |- _ => rewrite H end. intros [A B].
+  match goal with H : _ && _ = false |- _ => apply andb_false_iff in H as [H|H] end; bool_hyps; congruence.
+Qed.
+
+Lemma connect_joins s c s' x h : step s (EConnect c) = Some s' -> ps s !! c = Some x -> client_of x = Some h ->
+  c ∈ pget clients [] s' h.
+Proof.
+  intros Hs Hx Hc. unfold pget. step_inv Hs. injection Hx as <-. same_target. pssimpl.
+  rewrite lookup_insert. simpl. apply elem_of_app. right. left.
+Qed.
+
+Lemma spi_hosting_step k s e s' :
+  roles_inv s -> spi k s -> internal e = true -> step s e = Some s' ->
+  pget hosting false s k = true -> pget hosting false s' k = true.
+Proof.
+  intros Hinv (Hk & H1 & H2 & H3 & H4 & H5 & H6 & H7 & H8) Hi Hs Hh.
+  unfold pget in Hh. destruct (ps s !! k) as [x|] eqn:Hx; [|discriminate].
+  destruct (window_step s e s' k x Hx Hh (H8 x eq_refl Hh) Hs) as (x'' & Hx'' & Hh' & _).
+  - intros c q -> Hhead. apply head_elem_of in Hhead.
+    destruct (H6 _ _ _ Hhead) as [?|(_ & _ & ? & _)]; [discriminate|contradiction].
+  - intros h ->. exfalso. destruct (deliver_down_head _ _ _ _ Hs) as [m Hhead]. apply head_elem_of in Hhead.
+    destruct (H5 _ _ _ Hhead) as (_ & [(_ & ? & _)|(_ & _ & _ & Hhk)]); [congruence|].
+    rewrite (pget_Some _ _ _ _ _ Hx) in Hhk. congruence.
+  - rewrite (pget_Some _ _ _ _ _ Hx''). exact Hh'.
+Qed.
+
 Lemma spi_step k s e s' : roles_inv s -> spi k s -> internal e = true -> step s e = Some s' -> spi k s'.
 Proof.
-  intros Hinv (Hk & H1 & H2 & H3 & H4 & H5 & H6 & H7 & H8 & H9) Hi Hs.
+  intros Hinv Hspi Hi Hs.
+  pose proof (spi_hosting_step k s e s' Hinv Hspi Hi Hs) as Hkh.
+  destruct Hspi as (Hk & H1 & H2 & H3 & H4 & H5 & H6 & H7 & H8).
   pose proof (step_dom _ _ _ Hs) as Hdom.
-  assert (Hup : forall c h q, head (chan (up s) c h) = Some (NewHost q) -> q = k /\ c = k /\ h = host).
-  { intros c h q Hh. apply head_elem_of in Hh. destruct (H6 _ _ _ Hh) as [?|(? & ? & ?)]; [discriminate|]. simplify_eq. auto. }
+  assert (Hup : forall c h q, head (chan (up s) c h) = Some (NewHost q) ->
+                  q = k /\ c = k /\ h = host /\ pget hosting false s k = true).
+  { intros c h q Hh. apply head_elem_of in Hh. destruct (H6 _ _ _ Hh) as [?|(? & ? & ? & ?)]; [discriminate|]. simplify_eq. auto. }
   assert (Hold : forall p x', ps s' !! p = Some x' -> exists x, ps s !! p = Some x).
   { intros p x' Hx'. apply (Hdom p). eauto. }
   split; [exact Hk|]. split_and?.
@@ -974,14 +964,14 @@ Proof.
     destruct (client_of_changes_only s e s' k Hs) as [(h0 & q & -> & Hhead & Hq)|[(c & q & -> & Hhead & Hq)|(-> & Hq)]].
     { rewrite (pget_Some _ _ _ _ _ Hx), (pget_Some _ _ _ _ _ Hx'). congruence. }
     + apply head_elem_of in Hhead. destruct (H5 _ _ _ Hhead) as (_ & [(_ & ? & _)|(? & _)]); [congruence|discriminate].
-    + destruct (Hup _ _ _ Hhead) as (_ & _ & ?). congruence.
+    + destruct (Hup _ _ _ Hhead) as (_ & _ & ? & _). congruence.
     + rewrite (pget_Some _ _ _ _ _ Hx') in Hq. congruence.
   - (* the target of the old host *)
     intros x' h Hx' Hc. destruct (Hold _ _ Hx') as [x Hx].
     destruct (decide (client_of x = Some h)) as [Heq|Hne]; [eapply H4; eauto|].
     destruct (client_of_changes_only s e s' host Hs) as [(h0 & q & -> & Hhead & Hq)|[(c & q & -> & Hhead & Hq)|(-> & Hq)]].
     { rewrite (pget_Some _ _ _ _ _ Hx), (pget_Some _ _ _ _ _ Hx'). congruence. }
-    + apply head_elem_of in Hhead. destruct (H5 _ _ _ Hhead) as (_ & [(_ & _ & ?)|(? & _)]); [congruence|discriminate].
+    + apply head_elem_of in Hhead. destruct (H5 _ _ _ Hhead) as (_ & [(_ & _ & ? & _)|(? & _)]); [congruence|discriminate].
     + destruct (Hup _ _ _ Hhead) as (-> & _ & _). rewrite (pget_Some _ _ _ _ _ Hx') in Hq. congruence.
     + rewrite (pget_Some _ _ _ _ _ Hx') in Hq. congruence.
   - (* downstream traffic *)
@@ -989,7 +979,7 @@ Proof.
     rewrite Heq in Hm. apply elem_of_app in Hm as [Hm|Hm].
     + assert (Hmo : m ∈ chan (down s) h c).
       { destruct Hbase as [(_ & <-)|[(_ & m0 & ->)| ->]]; [exact Hm|right; exact Hm|inversion Hm]. }
-      destruct (H5 _ _ _ Hmo) as (-> & [(-> & ? & ?)|(-> & -> & Hch & Hhk)]); (split; [reflexivity|]); [left; auto|].
+      destruct (H5 _ _ _ Hmo) as (-> & [(-> & ? & ? & ?)|(-> & -> & Hch & Hhk)]); (split; [reflexivity|]); [left; auto|].
       right. split; [reflexivity|]. split; [reflexivity|].
       destruct Hbase as [(Hne & ->)|[(_ & m0 & Hpop)| ->]]; [|rewrite Hch in Hpop; simplify_eq; inversion Hm|inversion Hm].
       split.
@@ -1002,37 +992,57 @@ Proof.
         { rewrite (pget_Some _ _ _ _ _ Hx). exact Hhk. } { rewrite (pget_Some _ _ _ _ _ Hx'). exact Hh'. }
         apply head_elem_of in Hhead. destruct (H5 _ _ _ Hhead) as (-> & _). apply Hne. reflexivity.
     + destruct Hl as [->|(a & q & x & -> & Hhead & Hx & Hin & Hall)]; [inversion Hm|].
-      destruct (Hup _ _ _ Hhead) as (-> & -> & ->). rewrite (Hall _ Hm). split; [reflexivity|]. left.
+      destruct (Hup _ _ _ Hhead) as (-> & -> & -> & Hkhost). rewrite (Hall _ Hm). split; [reflexivity|]. left.
       apply elem_of_without in Hin as [Hne Hin]. split; [reflexivity|]. split; [exact Hne|].
+      split; [|apply Hkh; exact Hkhost].
       destruct Hinv as (_ & Hcl & _). destruct (Hcl _ _ _ Hx Hin) as [? _]. assumption.
   - (* upstream traffic *)
     intros c h m Hm. destruct (up_shape s e s' c h Hi Hs) as (base & l & Heq & Hbase & Hl).
     rewrite Heq in Hm. apply elem_of_app in Hm as [Hm|Hm].
-    + apply (H6 c h m). destruct Hbase as [(_ & <-)|[(_ & m0 & ->)| ->]]; [exact Hm|right; exact Hm|inversion Hm].
+    + assert (Hmo : m ∈ chan (up s) c h).
+      { destruct Hbase as [(_ & <-)|[(_ & m0 & ->)| ->]]; [exact Hm|right; exact Hm|inversion Hm]. }
+      destruct (H6 c h m Hmo) as [?|(? & ? & ? & ?)]; [left; assumption|right; auto].
     + destruct Hl as [->|[(-> & -> & x & Hx & Hco & Hsa & _)|(-> & _)]]; [inversion Hm| |].
       * apply elem_of_list_singleton in Hm as ->. right.
-        pose proof (H2 _ _ Hx Hsa) as ->. split; [reflexivity|]. split; [reflexivity|]. eapply H3; eauto.
+        pose proof (H2 _ _ Hx Hsa) as ->. split; [reflexivity|]. split; [reflexivity|]. split; [eapply H3; eauto|].
+        apply Hkh. rewrite (pget_Some _ _ _ _ _ Hx). destruct Hinv as (Hwf & _ & _).
+        destruct (Hwf _ _ Hx) as (W1 & _). destruct (hosting x) eqn:Hhx; [reflexivity|].
+        destruct (W1 eq_refl) as (_ & _ & ?). congruence.
       * apply elem_of_list_singleton in Hm as ->. left. reflexivity.
   - (* the other clients *)
     intros c x' Hx' Hc0 Hck. destruct (Hold _ _ Hx') as [x Hx].
-    destruct (H7 c x Hx Hc0 Hck) as [Hu|(Hst & Hco & Hfl)].
+    destruct (H7 c x Hx Hc0 Hck) as [Hu|(M1 & M2 & M3 & M4 & M5 & M6 & M7 & M8)].
     + destruct (untouched_self s e s' c x Hs Hx Hu Hc0) as (x'' & Hx'' & Hcases).
       rewrite Hx' in Hx''. injection Hx'' as <-.
-      destruct Hcases as [(U1 & U2 & U3 & U4 & U5)|[(-> & Hhead)|(q & -> & Hhead & Hst & Hco & Hfl)]].
+      destruct Hcases as [(U1 & U2 & U3 & U4 & U5)|[(-> & Hhead)|(q & -> & Hhead & N1 & N2 & N3 & N4 & N5 & N6 & N7)]].
       * left. unfold untouched. split_and?; try assumption.
         destruct Hu as (_ & V2 & V3 & _ & _ & x0 & V6 & V7 & V8).
         eapply (untouched_host s e s' c x x0); eauto.
         intros q -> Hhead. destruct (Hup _ _ _ Hhead) as (_ & ? & _). contradiction.
       * exfalso. apply head_elem_of in Hhead. destruct (H5 _ _ _ Hhead) as (_ & [(? & _)|(_ & ? & _)]); [discriminate|contradiction].
-      * right. apply head_elem_of in Hhead. destruct (H5 _ _ _ Hhead) as (_ & [(Hq & _)|(? & _)]); [|discriminate].
-        injection Hq as ->. auto.
-    + right. destruct (stranded_frozen s e s' c x Hs Hx Hst) as (x'' & Hx'' & Hst' & Hco' & Hfl').
-      rewrite Hx' in Hx''. injection Hx'' as <-. split; [exact Hst'|]. split; congruence.
+      * right. apply head_elem_of in Hhead. destruct (H5 _ _ _ Hhead) as (_ & [(Hq & _ & _ & Hkhost)|(? & _)]); [|discriminate].
+        injection Hq as ->. unfold moved. split_and?; try assumption; [apply Hkh; exact Hkhost|].
+        intros Hl. congruence.
+    + right. destruct (moved_self s e s' k c x Hs Hx Hck M1 M2 M3 M4 M5 M6) as (x'' & Hx'' & N1 & N2 & N3 & N4 & N5 & N6 & N7).
+      * destruct (srv_added x) eqn:Hsa; [|reflexivity]. exfalso. apply Hck. eapply H2; eauto.
+      * intros Hl. split; [exact M7|exact (M8 Hl)].
+      * destruct (chan (down s) k c) as [|m0 rest] eqn:Hch; [reflexivity|]. exfalso.
+        destruct (H5 k c m0) as (Hkhost & _); [rewrite Hch; left|]. apply Hk. exact Hkhost.
+      * rewrite Hx' in Hx''. injection Hx'' as <-. unfold moved. split_and?; try assumption; [apply Hkh; exact M7|].
+        intros Hl'. destruct (decide (e = EConnect c)) as [->|Hne].
+        -- eapply connect_joins; eauto.
+        -- destruct (N7 Hl') as [Hl|?]; [|contradiction]. specialize (M8 Hl).
+           unfold pget in M7, M8 |- *. destruct (ps s !! k) as [xk|] eqn:Hxk; [|discriminate].
+           destruct (proj2 (Hdom k) (ex_intro _ xk Hxk)) as [xk' Hxk']. rewrite Hxk'.
+           destruct (decide (c ∈ clients xk')) as [Hin|Hnin]; [exact Hin|]. exfalso.
+           destruct (clients_shrink_only s e s' k xk xk' c Hs Hxk Hxk' M8 Hnin) as [(-> & Hnot)|(q & -> & Hhead)].
+           ++ apply Hnot. rewrite !(pget_Some _ _ _ _ _ Hx). auto.
+           ++ destruct (Hup _ _ _ Hhead) as (_ & ? & _). contradiction.
   - (* the window of k *)
     intros x' Hx' Hh. destruct (Hold _ _ Hx') as [x Hx].
     destruct (hosting x) eqn:Hhx.
     + destruct (window_step s e s' k x Hx Hhx (H8 x Hx Hhx) Hs) as (x'' & Hx'' & _ & Hw).
-      * intros c q -> Hhead. destruct (Hup _ _ _ Hhead) as (_ & _ & ?). contradiction.
+      * intros c q -> Hhead. destruct (Hup _ _ _ Hhead) as (_ & _ & ? & _). contradiction.
       * intros h ->. exfalso. destruct (deliver_down_head _ _ _ _ Hs) as [m Hhead]. apply head_elem_of in Hhead.
         destruct (H5 _ _ _ Hhead) as (_ & [(_ & ? & _)|(_ & _ & _ & Hhk)]); [congruence|].
         rewrite (pget_Some _ _ _ _ _ Hx) in Hhk. congruence.
@@ -1042,31 +1052,6 @@ Proof.
       destruct (promote_opens_window s h k s' Hinv Hs Hhead) as (x'' & Hx'' & _ & _ & Hw).
       { rewrite (pget_Some _ _ _ _ _ Hx). exact Hhx. }
       rewrite Hx' in Hx''. injection Hx'' as <-. exact Hw.
-  - (* the clients of k *)
-    intros x' c Hx' Hin. destruct (Hold _ _ Hx') as [x Hx].
-    destruct (decide (c ∈ clients x)) as [Hc|Hc]; [eapply H9; eauto|].
-    destruct (clients_grow_only_by_connect s e s' k x x' c Hs Hx Hx' Hin Hc) as (-> & Hco & Hsk).
-    unfold pget in Hco, Hsk. destruct (ps s !! c) as [y|] eqn:Hy; [|discriminate].
-    destruct (decide (c = host)) as [->|Hc0]; [reflexivity|]. exfalso.
-    destruct (decide (c = k)) as [->|Hck].
-    + apply Hk. eapply H3; eauto.
-    + destruct (H7 c y Hy Hc0 Hck) as [(_ & U2 & _)|((_ & S2 & _) & _)]; [|congruence].
-      rewrite U2 in Hco. injection Hco as Hco. apply Hk. symmetry. exact Hco.
-Qed.
-
-Lemma spi_hosting_step k s e s' :
-  roles_inv s -> spi k s -> internal e = true -> step s e = Some s' ->
-  pget hosting false s k = true -> pget hosting false s' k = true.
-Proof.
-  intros Hinv (Hk & H1 & H2 & H3 & H4 & H5 & H6 & H7 & H8 & H9) Hi Hs Hh.
-  unfold pget in Hh. destruct (ps s !! k) as [x|] eqn:Hx; [|discriminate].
-  destruct (window_step s e s' k x Hx Hh (H8 x eq_refl Hh) Hs) as (x'' & Hx'' & Hh' & _).
-  - intros c q -> Hhead. apply head_elem_of in Hhead.
-    destruct (H6 _ _ _ Hhead) as [?|(_ & _ & ?)]; [discriminate|contradiction].
-  - intros h ->. exfalso. destruct (deliver_down_head _ _ _ _ Hs) as [m Hhead]. apply head_elem_of in Hhead.
-    destruct (H5 _ _ _ Hhead) as (_ & [(_ & ? & _)|(_ & _ & _ & Hhk)]); [congruence|].
-    rewrite (pget_Some _ _ _ _ _ Hx) in Hhk. congruence.
-  - rewrite (pget_Some _ _ _ _ _ Hx''). exact Hh'.
 Qed.
 
 Lemma spi_run k tr : forall s s', roles_inv s -> spi k s -> all_internal tr -> run s tr = Some s' ->
@@ -1119,8 +1104,6 @@ Proof.
     exists (idle_host (client_ids n)). rewrite Hl, session_lookup, decide_True by reflexivity. auto.
   - intros x Hx Hh. rewrite Hl, session_lookup in Hx. rewrite (decide_False _ _ Hk0), (decide_True _ _ Hk) in Hx.
     simplify_eq; simpl in *; try discriminate.
-  - intros x c Hx Hc. rewrite Hl, session_lookup in Hx. rewrite (decide_False _ _ Hk0), (decide_True _ _ Hk) in Hx.
-    simplify_eq; simpl in *; try (inversion Hc).
 Qed.
 
 Lemma run_dom tr : forall s s', run s tr = Some s' -> forall p, is_Some (ps s' !! p) <-> is_Some (ps s !! p).
@@ -1160,6 +1143,7 @@ Proof.
   intros Hk Hall Hrun p Hp. destruct (single_promotion_invariant n k tr s Hk Hall Hrun) as (_ & _ & H1 & _).
   apply elem_of_hosts in Hp as (x & Hx & Hh). eauto.
 Qed.
+Print Assumptions at_most_two_hosts.
 
 (* a promoted peer that hosts keeps hosting *)
 Corollary promoted_host_keeps_hosting n k tr s tr' s' :
@@ -1170,36 +1154,50 @@ Proof.
   intros Hk Hall Hrun Hall' Hrun' Hh. destruct (single_promotion_invariant n k tr s Hk Hall Hrun) as (Hinv & Hspi).
   destruct (spi_run k tr' _ _ Hinv Hspi Hall' Hrun') as (_ & _ & C). auto.
 Qed.
+Print Assumptions promoted_host_keeps_hosting.
 
-(* S8 for every n: with a second client c the promotion NEVER reaches its goal -- at no point of any
-   run; c is an ordinary client of the old host until it obeys NewHost, stranded from then on, and
-   never enters the client table of the new host *)
+(* what is left of S8 after the repair, for every n >= 2: the promotion NEVER reaches its goal
+   [session_ok] -- at no point of any run.  A second client c is an ordinary client of the old host
+   until it obeys NewHost; from then on it is a client of the new host k with a RenetClient that is
+   and stays alive (so the repair works: [moved]) -- but its flag host_promotion_in_progress is set
+   and nothing ever clears it (ClientState never leaves Connected, so verify_client_connected never
+   runs again on c) *)
 Theorem C07_never_with_more_clients n k c tr s :
   k ∈ client_ids n -> c ∈ client_ids n -> c <> k -> all_internal tr -> run (promoted n k) tr = Some s ->
-  (exists x, ps s !! c = Some x /\ (untouched s c x \/ (stranded x /\ client_of x = Some k /\ flag x = true))) /\
-  (forall d, d ∈ pget clients [] s k -> d = host) /\
+  (exists x, ps s !! c = Some x /\ (untouched s c x \/ moved s k c x)) /\
   ~ session_ok s k.
 Proof.
   intros Hk Hc Hck Hall Hrun. destruct (single_promotion_invariant n k tr s Hk Hall Hrun) as (Hinv & Hspi).
-  destruct Hspi as (Hk0 & H1 & H2 & H3 & H4 & H5 & H6 & H7 & H8 & H9).
+  destruct Hspi as (Hk0 & H1 & H2 & H3 & H4 & H5 & H6 & H7 & H8).
   assert (Hc0 : c <> host) by (apply elem_of_client_ids in Hc; unfold host; lia).
   assert (Hdom : is_Some (ps s !! c)).
   { apply (run_dom _ _ _ Hrun). destruct (promoted_eq n k Hk) as [_ ->]. rewrite ps_push_down, session_lookup.
     rewrite (decide_False _ _ Hc0), (decide_True _ _ Hc). eauto. }
   destruct Hdom as [x Hx]. pose proof (H7 c x Hx Hc0 Hck) as Hcase.
-  split; [eauto|]. split.
-  - intros d Hd. unfold pget in Hd. destruct (ps s !! k) as [xk|] eqn:Hxk; [|inversion Hd]. eapply H9; eauto.
-  - intros [_ Hok]. destruct (Hok c x Hx Hck) as (Hco & Hl & _).
-    destruct Hcase as [(_ & U2 & _)|((_ & _ & S3 & _) & _)]; [|congruence].
-    rewrite U2 in Hco. injection Hco as Hco. apply Hk0. symmetry. exact Hco.
+  split; [eauto|].
+  intros [_ Hok]. destruct (Hok c x Hx Hck) as (Hco & _ & _ & Hfl & _).
+  destruct Hcase as [(_ & U2 & _)|(_ & _ & _ & _ & _ & M6 & _)]; [|congruence].
+  rewrite U2 in Hco. injection Hco as Hco. apply Hk0. symmetry. exact Hco.
 Qed.
 Print Assumptions C07_never_with_more_clients.
 
-(* the hypotheses are satisfiable and the disjunction is not vacuous: in the S8 witness state peer 2 is
-   in its second case *)
-Example C07_never_example :
-  exists x, ps s8_state !! 2 = Some x /\ stranded x /\ client_of x = Some 1 /\ flag x = true.
-Proof. eexists. split; [vm_compute; reflexivity|]. vm_compute. repeat split; eauto. Qed.
+(* the repair, for every n: during a single promotion no client other than the promoted one ever has
+   a dead RenetClient -- nobody is stranded any more.  (A dead RenetClient can still persist on a
+   KICKED PROMOTED peer: harmless in a chain (Part 6: the next NewHost replaces it), not harmless if
+   the application promotes two peers at once: Promotion.ex_concurrent_promotions.) *)
+Corollary no_client_stranded n k c tr s :
+  k ∈ client_ids n -> c ∈ client_ids n -> c <> k -> all_internal tr -> run (promoted n k) tr = Some s ->
+  pget sticky true s c = false /\ ~ strandedP s c.
+Proof.
+  intros Hk Hc Hck Hall Hrun. destruct (C07_never_with_more_clients n k c tr s Hk Hc Hck Hall Hrun) as [(x & Hx & Hcase) _].
+  destruct (single_promotion_invariant n k tr s Hk Hall Hrun) as ((Hwf & _ & _) & _).
+  assert (Hs : sticky x = false).
+  { destruct Hcase as [(_ & _ & U3 & _)|(_ & _ & _ & _ & M5 & _)]; [|exact M5].
+    destruct (Hwf _ _ Hx) as (_ & _ & W3 & _). destruct (sticky x); [|reflexivity]. specialize (W3 eq_refl). congruence. }
+  unfold strandedP. rewrite !(pget_Some _ _ _ _ _ Hx). split; [exact Hs|].
+  intros (_ & S2 & _). congruence.
+Qed.
+Print Assumptions no_client_stranded.
 
 (* (3) a promoted peer that hosts keeps hosting, in ANY session and whatever else goes on (other
    promotions included), as long as it does not itself handle another promotion message *)
@@ -1247,36 +1245,336 @@ Proof.
   - destruct (step s e); [apply IH; exact Hq|exact I].
 Qed.
 
-(* non-vacuity: the promoted peer of the S8 run; the rest of that run is quiet for peer 1 *)
+(* the run of Promotion.ex_two_clients to its end (without its first event, the request itself) *)
+Definition two_hosts_run : list pevent := tail ex_two_clients ++ [ETimeout 0 2; ENotify 0].
+Definition two_hosts_state : pstate := default (session 2) (run (promoted 2 1) two_hosts_run).
+Example two_hosts_run_runs : all_internal two_hosts_run /\ run (promoted 2 1) two_hosts_run = Some two_hosts_state.
+Proof. split; [unfold all_internal; repeat constructor|vm_compute; reflexivity]. Qed.
+
+(* non-vacuity: the promoted peer of that run; the rest of the run is quiet for peer 1 *)
 Example hosting_after_promotion_example :
   let s1 := default (session 2) (step (promoted 2 1) (EDeliverDown 0 1)) in
   step (promoted 2 1) (EDeliverDown 0 1) = Some s1 /\
   head (chan (down (promoted 2 1)) 0 1) = Some Promote /\
   pget hosting true (promoted 2 1) 1 = false /\
-  run s1 (tail s8_run) = Some s8_state /\ quiet_for 1 s1 (tail s8_run).
+  run s1 (tail two_hosts_run) = Some two_hosts_state /\ quiet_for 1 s1 (tail two_hosts_run).
 Proof.
   cbv zeta. split; [vm_compute; reflexivity|]. split; [vm_compute; reflexivity|]. split; [vm_compute; reflexivity|].
   split; [vm_compute; reflexivity|]. apply quiet_forb_true. vm_compute. reflexivity.
 Qed.
 
-(* what the real code shows 30 frames after the promotion in a 3-peer session (harness scenario
-   "PEERS 3 / setup x3 / ROUND 10 / OP 0 promote 1 / ROUND 30"): the S8 run up to the netcode time-out
-   of the old host (15 s), which is the only thing still to happen *)
-Example s8_as_observed :
-  (fun s => (roles s, enabled s)) <$> run (promoted 2 1) (take 12 s8_run)
-  = Some ([(0, (true, SConnected, [2], Some 1, CConnected, true, false, false));
-           (1, (true, SConnected, [0], None, CDisconnected, false, true, false));
-           (2, (false, SDisconnected, [], Some 1, CConnected, false, true, true))], [ETimeout 0 2]).
+(* ---------- the rest of S8: a server whose flag is not set is never closed ---------- *)
+
+(* the only place that closes a server tests the flag; the flag is set only by promotion messages *)
+Lemma hosting_without_flag_step s e s' p :
+  step s e = Some s' -> pget hosting false s p = true -> pget flag true s p = false ->
+  (forall c q, e = EDeliverUp c p -> head (chan (up s) c p) <> Some (NewHost q)) ->
+  (forall h, e = EDeliverDown h p -> head (chan (down s) h p) = Some ReqInit) ->
+  pget hosting false s' p = true /\ pget flag true s' p = false.
+Proof.
+  intros Hs Hh Hf Hno1 Hno2. unfold pget in Hh, Hf. destruct (ps s !! p) as [x|] eqn:Hx; [|discriminate].
+  destruct (proj2 (step_dom _ _ _ Hs p) (ex_intro _ x Hx)) as [x' Hx'].
+  rewrite !(pget_Some _ _ _ _ _ Hx'). split.
+  - destruct (hosting x') eqn:Hh'; [reflexivity|]. exfalso.
+    destruct (hosting_falls_only_when s e s' p Hs) as (_ & y & c & q & Hy & _ & Hfy & _).
+    { rewrite (pget_Some _ _ _ _ _ Hx). exact Hh. } { rewrite (pget_Some _ _ _ _ _ Hx'). exact Hh'. }
+    rewrite Hx in Hy. injection Hy as <-. congruence.
+  - destruct (flag x') eqn:Hf'; [|reflexivity]. exfalso.
+    destruct (flag_rises_only_by_message s e s' p Hs) as [(h & -> & Hhead)|(c & q & -> & Hhead)].
+    { rewrite (pget_Some _ _ _ _ _ Hx). exact Hf. } { rewrite (pget_Some _ _ _ _ _ Hx'). exact Hf'. }
+    + rewrite (Hno2 h eq_refl) in Hhead. destruct Hhead as [?|[q ?]]; discriminate.
+    + exact (Hno1 c q eq_refl Hhead).
+Qed.
+
+(* in ANY session, whatever goes on (promotions included): a peer that hosts with its flag not set
+   keeps hosting as long as it does not itself handle a promotion message *)
+Theorem hosting_without_flag s p tr s' :
+  pget hosting false s p = true -> pget flag true s p = false ->
+  run s tr = Some s' -> quiet_for p s tr ->
+  pget hosting false s' p = true /\ pget flag true s' p = false.
+Proof.
+  revert s. induction tr as [|e tr IH]; intros s Hh Hf Hrun Hq; simpl in Hrun, Hq.
+  - inversion Hrun; subst. auto.
+  - destruct Hq as [Hnot Hq]. destruct (step s e) as [s1|] eqn:Hs; [|discriminate].
+    destruct (hosting_without_flag_step s e s1 p Hs Hh Hf) as [Hh1 Hf1].
+    + intros c q -> Hc. apply Hnot. left. eauto.
+    + intros h' ->. destruct (decide (head (chan (down s) h' p) = Some ReqInit)) as [Hy|Hn]; [exact Hy|].
+      exfalso. apply Hnot. right. eauto.
+    + eapply IH; eauto.
+Qed.
+Print Assumptions hosting_without_flag.
+
+(* one promotion, any n: once the hand-over has reached the old host it has reached it for good *)
+Lemma pending_absorbing k s e s' :
+  spi k s -> internal e = true -> step s e = Some s' -> ~ handover_pending k s -> ~ handover_pending k s'.
+Proof.
+  intros (Hk & H1 & H2 & H3 & H4 & H5 & H6 & H7 & H8) Hi Hs Hn [Hp|[Hp|Hp]]; apply Hn.
+  - (* a Promote in flight was in flight before *)
+    destruct (down_shape s e s' host k Hi Hs) as (base & l & Heq & Hbase & Hl).
+    rewrite Heq in Hp. apply elem_of_app in Hp as [Hp|Hp].
+    + left. destruct Hbase as [(_ & <-)|[(_ & m0 & ->)| ->]]; [exact Hp|right; exact Hp|inversion Hp].
+    + destruct Hl as [->|(a & q & x & _ & _ & _ & _ & Hall)]; [inversion Hp|]. specialize (Hall _ Hp). discriminate.
+  - (* the server transport of k appears only when the Promote is handled *)
+    unfold pget in Hp. destruct (ps s' !! k) as [x'|] eqn:Hx'; [|discriminate].
+    destruct (proj1 (step_dom _ _ _ Hs k) (ex_intro _ x' Hx')) as [x Hx].
+    destruct (srv_added x) eqn:Hsa; [right; left; rewrite (pget_Some _ _ _ _ _ Hx); exact Hsa|].
+    destruct (srv_added_rises_only_by_promote s e s' k Hs) as (h & -> & Hhead).
+    { rewrite (pget_Some _ _ _ _ _ Hx). exact Hsa. } { rewrite (pget_Some _ _ _ _ _ Hx'). exact Hp. }
+    apply head_elem_of in Hhead. destruct (H5 _ _ _ Hhead) as (-> & _). left. exact Hhead.
+  - (* NewHost(k) is sent only when ServerState enters Connected after that *)
+    destruct (up_shape s e s' k host Hi Hs) as (base & l & Heq & Hbase & Hl).
+    rewrite Heq in Hp. apply elem_of_app in Hp as [Hp|Hp].
+    + right; right. destruct Hbase as [(_ & <-)|[(_ & m0 & ->)| ->]]; [exact Hp|right; exact Hp|inversion Hp].
+    + destruct Hl as [->|[(_ & _ & x & Hx & _ & Hsa & _)|(-> & _)]]; [inversion Hp| |].
+      * right; left. rewrite (pget_Some _ _ _ _ _ Hx). exact Hsa.
+      * apply elem_of_list_singleton in Hp. discriminate.
+Qed.
+
+Lemma old_host_step k s e s' :
+  spi k s -> internal e = true -> step s e = Some s' -> ~ handover_pending k s ->
+  pget hosting false s host = true -> pget flag true s host = false ->
+  pget hosting false s' host = true /\ pget flag true s' host = false.
+Proof.
+  intros Hspi Hi Hs Hn Hh Hf. pose proof Hspi as (Hk & H1 & H2 & H3 & H4 & H5 & H6 & H7 & H8).
+  apply (hosting_without_flag_step s e s' host Hs Hh Hf).
+  - intros c q -> Hhead. apply Hn. apply head_elem_of in Hhead.
+    destruct (H6 _ _ _ Hhead) as [?|(Hq & -> & _)]; [discriminate|]. injection Hq as ->. right; right. exact Hhead.
+  - intros h ->. exfalso. destruct (deliver_down_head _ _ _ _ Hs) as [m Hhead]. apply head_elem_of in Hhead.
+    destruct (H5 _ _ _ Hhead) as (_ & [(_ & _ & ? & _)|(_ & ? & _)]); [contradiction|]. apply Hk. symmetry. assumption.
+Qed.
+
+(* THE REST OF S8, for sessions of any size.  Take any point of a promotion at which the old host has
+   handled NewHost(k) (nothing of the hand-over is pending towards it), still has its server and has
+   lost its flag -- verify_client_connected consumed it when the old host connected to k while one of
+   its old clients had not yet timed out.  From then on the old host hosts FOR EVER: two servers. *)
+Theorem old_host_keeps_hosting n k tr s tr' s' :
+  k ∈ client_ids n -> all_internal tr -> run (promoted n k) tr = Some s ->
+  ~ handover_pending k s -> pget hosting false s host = true -> pget flag true s host = false ->
+  all_internal tr' -> run s tr' = Some s' ->
+  pget hosting false s' host = true /\ pget flag true s' host = false /\ host ∈ hosts s'.
+Proof.
+  intros Hk Hall Hrun Hn Hh Hf Hall' Hrun'.
+  destruct (single_promotion_invariant n k tr s Hk Hall Hrun) as (Hinv & Hspi).
+  assert (Hgen : pget hosting false s' host = true /\ pget flag true s' host = false).
+  { clear Hrun Hall. revert s Hinv Hspi Hn Hh Hf Hall' Hrun'.
+    induction tr' as [|e tr' IH]; intros s Hinv Hspi Hn Hh Hf Hall' Hrun'; simpl in Hrun'.
+    - inversion Hrun'; subst. auto.
+    - destruct (step s e) as [s1|] eqn:Hs; [|discriminate]. apply Forall_cons in Hall' as [Hi Hall'].
+      destruct (old_host_step k s e s1 Hspi Hi Hs Hn Hh Hf) as [Hh1 Hf1].
+      eapply (IH s1); eauto using roles_inv_step, spi_step, pending_absorbing. }
+  destruct Hgen as [Hh' Hf']. split; [exact Hh'|]. split; [exact Hf'|].
+  apply elem_of_hosts. unfold pget in Hh'. destruct (ps s' !! host) as [x0|]; [|discriminate]. eauto.
+Qed.
+Print Assumptions old_host_keeps_hosting.
+
+Global Instance handover_pending_dec k s : Decision (handover_pending k s).
+Proof. unfold handover_pending. apply _. Defined.
+
+(* non-vacuity: the real-code run, right after verify_client_connected on the old host (EVerify 0) *)
+Example old_host_keeps_hosting_example :
+  let s := default (session 2) (run (promoted 2 1) (take 12 two_hosts_run)) in
+  run (promoted 2 1) (take 12 two_hosts_run) = Some s /\ all_internal (take 12 two_hosts_run) /\
+  ~ handover_pending 1 s /\ pget hosting false s host = true /\ pget flag true s host = false /\
+  pget clients [] s host = [2].
+Proof.
+  cbv zeta. split; [vm_compute; reflexivity|]. split; [unfold all_internal; simpl; repeat constructor|].
+  split; [apply (bool_decide_unpack _); vm_compute; exact I|]. split; [vm_compute; reflexivity|].
+  split; vm_compute; reflexivity.
+Qed.
+
+(* ================================================================================================
+   Part 5: what is left of S8 -- promotion with TWO and THREE clients, every interleaving
+   ================================================================================================ *)
+
+Example session_2_roles :
+  roles (session 2) = [(0, (true, SConnected, [1; 2], None, CDisconnected, false, false, false));
+                       (1, (false, SDisconnected, [], Some 0, CConnected, true, false, false));
+                       (2, (false, SDisconnected, [], Some 0, CConnected, true, false, false))].
+Proof. vm_compute. reflexivity. Qed.
+
+(* [repaired_outcome] (Promotion.v), said with quantifiers *)
+Lemma repaired_outcome_spec s k : repaired_outcome s k ->
+  no_traffic s /\
+  (exists xk, ps s !! k = Some xk /\ pure_host xk (clients xk) /\
+              forall p, p <> k -> is_Some (ps s !! p) -> p ∈ clients xk) /\
+  (forall p x, ps s !! p = Some x -> p <> k ->
+     joined x k /\ (p = host -> old_host_end x) /\ (p <> host -> other_client_end x)) /\
+  (forall p, p ∈ hosts s -> p = k \/ p = host).
+Proof.
+  intros (Hu & Hd & Hk & Hall). split; [split; assumption|]. split; [|split].
+  - destruct (ps s !! k) as [xk|] eqn:Hxk; [|contradiction]. destruct Hk as [Hph Hcl].
+    exists xk. split; [reflexivity|]. split; [exact Hph|]. intros p Hp [x Hx]. exact (Hcl p x Hx Hp).
+  - intros p x Hx Hp. exact (Hall p x Hx Hp).
+  - intros p Hp. apply elem_of_hosts in Hp as (x & Hx & Hh).
+    destruct (decide (p = k)) as [->|Hpk]; [left; reflexivity|right].
+    destruct (Hall p x Hx Hpk) as (_ & _ & Hoc). destruct (decide (p = host)) as [->|Hph]; [reflexivity|].
+    destruct (Hoc Hph) as (Hh' & _). congruence.
+Qed.
+
+(* the other clients keep their flag: the full goal is missed *)
+Lemma repaired_outcome_not_ok s k c : repaired_outcome s k -> is_Some (ps s !! c) -> c <> k -> c <> host -> ~ session_ok s k.
+Proof.
+  intros (_ & _ & _ & Hall) [x Hx] Hck Hc0 [_ Hok].
+  destruct (Hall c x Hx Hck) as (_ & _ & Hoc). destruct (Hoc Hc0) as (_ & _ & Hf).
+  destruct (Hok c x Hx Hck) as (_ & _ & _ & Hf' & _). congruence.
+Qed.
+
+(* the stable end states, as the checker sees them: the outcome, the number of clients of the new host
+   (with the membership part of the outcome: exactly all other peers), one or two servers *)
+Definition endb (nclients : nat) (s : pstate) : bool :=
+  bool_decide (repaired_outcome s 1) && bool_decide (length (pget clients [] s 1) = nclients)
+  && bool_decide (hosts s = [1] \/ hosts s = [0; 1]).
+Lemma endb_true n s : endb n s = true ->
+  repaired_outcome s 1 /\ length (pget clients [] s 1) = n /\ (hosts s = [1] \/ hosts s = [0; 1]).
+Proof. unfold endb. rewrite !andb_true_iff, !bool_decide_eq_true. tauto. Qed.
+
+(* ---------- two clients: all 1077 states reachable after the request ---------- *)
+Definition R2 : list pstate := default [] (explore_h (100 * 100) [promoted 2 1] ∅ []).
+Lemma R2_checked : checked (endb 2) R2.
+Proof. apply checkb_h_checked. vm_cast_no_check (eq_refl true). Qed.
+Lemma R2_start : promoted 2 1 ∈ R2.
+Proof. apply inb_true. vm_compute. reflexivity. Qed.
+Example R2_size : length R2 = 1077%nat /\ measure (promoted 2 1) = 50%nat.
+Proof. split; vm_compute; reflexivity. Qed.
+
+(* With two clients EVERY run terminates, and every run that cannot be continued ends like this:
+   the new host 1 hosts exactly 0 and 2, both are connected clients of 1 with a live RenetClient
+   (the repair works) -- but client 2 keeps its flag, and the old host 0 either has closed its server
+   or keeps it for ever.  Both happen (two_hosts_state, one_host_state below). *)
+Theorem C07_two_clients_every_run_repaired :
+  forall tr s, all_internal tr -> run (promoted 2 1) tr = Some s ->
+    (length tr + measure s <= measure (promoted 2 1%N))%nat
+    /\ (stable s -> repaired_outcome s 1 /\ length (pget clients [] s 1) = 2%nat /\
+                    (hosts s = [1] \/ hosts s = [0; 1]) /\ ~ session_ok s 1)
+    /\ (exists tr' s', all_internal tr' /\ run s tr' = Some s' /\ stable s' /\ repaired_outcome s' 1).
+Proof.
+  intros tr s Hall Hrun.
+  destruct (check_run _ _ R2_checked _ _ _ R2_start Hall Hrun) as [Hin Hle].
+  split; [exact Hle|]. split.
+  - intros Hst. destruct (endb_true _ _ (check_stable _ _ _ R2_checked Hin Hst)) as (Ho & Hl & Hh).
+    split; [exact Ho|]. split; [exact Hl|]. split; [exact Hh|].
+    apply (repaired_outcome_not_ok s 1 2 Ho); [|discriminate|discriminate].
+    apply (run_dom _ _ _ Hrun). vm_compute. eauto.
+  - destruct (check_completes _ _ R2_checked _ Hin) as (tr' & s' & H1 & H2 & H3 & _ & H4).
+    exists tr', s'. split; [exact H1|]. split; [exact H2|]. split; [exact H3|]. exact (proj1 (endb_true _ _ H4)).
+Qed.
+Print Assumptions C07_two_clients_every_run_repaired.
+
+(* the ending of the real-code run (Promotion.ex_two_clients, then the 15 s time-out): two servers *)
+Example two_hosts_state_roles :
+  roles two_hosts_state = [(0, (true, SConnected, [], Some 1, CConnected, true, false, false));
+                           (1, (true, SConnected, [0; 2], None, CDisconnected, false, true, false));
+                           (2, (false, SDisconnected, [], Some 1, CConnected, true, false, true))]
+  /\ enabled two_hosts_state = [] /\ no_traffic two_hosts_state.
+Proof.
+  split; [vm_compute; reflexivity|]. split; [vm_compute; reflexivity|].
+  split; apply (bool_decide_unpack _); vm_compute; exact I.
+Qed.
+
+(* C07 is still refuted with two clients: a run after which nothing will ever happen, two peers host,
+   and client 2 still has host_promotion_in_progress set *)
+Theorem C07_refuted_two_clients :
+  exists tr s,
+    all_internal tr /\ run (promoted 2 1) tr = Some s /\
+    stable s /\                                  (* nothing will happen any more *)
+    hosts s = [0; 1] /\                          (* two peers host *)
+    repaired_outcome s 1 /\                      (* although everybody is a connected client of 1 *)
+    pget clients [] s 1 = [0; 2] /\ pget clients [] s 0 = [] /\
+    pget flag false s 2 = true /\
+    ~ session_ok s 1 /\ ~ session_ok_roles s 1.
+Proof.
+  exists two_hosts_run, two_hosts_state. destruct two_hosts_run_runs as [Ha Hr].
+  split; [exact Ha|]. split; [exact Hr|]. split; [apply stableb_true; vm_compute; reflexivity|].
+  split; [vm_compute; reflexivity|]. split; [apply (bool_decide_unpack _); vm_compute; exact I|].
+  split; [vm_compute; reflexivity|]. split; [vm_compute; reflexivity|]. split; [vm_compute; reflexivity|].
+  split; intros [Hh _]; vm_compute in Hh; discriminate.
+Qed.
+Print Assumptions C07_refuted_two_clients.
+
+Corollary C07_statement_two_clients_false : ~ C07_statement 2 1.
+Proof.
+  intros H. destruct C07_refuted_two_clients as (tr & s & Ha & Hr & Hst & _ & _ & _ & _ & _ & Hn & _).
+  exact (Hn (H tr s Ha Hr Hst)).
+Qed.
+Corollary C07_roles_refuted_two_clients : ~ C07_roles_statement 2 1.
+Proof.
+  intros H. destruct C07_refuted_two_clients as (tr & s & Ha & Hr & Hst & _ & _ & _ & _ & _ & _ & Hn).
+  exact (Hn (H tr s Ha Hr Hst)).
+Qed.
+
+(* stronger: with two clients NO run reaches the full goal (the flag of client 2) *)
+Corollary C07_two_clients_never_ok tr s :
+  all_internal tr -> run (promoted 2 1) tr = Some s -> stable s -> ~ session_ok s 1.
+Proof. intros Ha Hr Hst. destruct (C07_two_clients_every_run_repaired tr s Ha Hr) as (_ & H & _). apply H. exact Hst. Qed.
+
+(* the other ending: the old host notices the departure of client 2 before verify_client_connected has
+   consumed its flag, and closes its server: the roles are right *)
+Definition one_host_state : pstate := default (session 2) (run (promoted 2 1) (tail ex_two_clients_closed)).
+Example one_host_reachable :
+  all_internal (tail ex_two_clients_closed) /\ run (promoted 2 1) (tail ex_two_clients_closed) = Some one_host_state /\
+  stable one_host_state /\ hosts one_host_state = [1] /\ session_ok_roles one_host_state 1 /\ repaired_outcome one_host_state 1.
+Proof.
+  split; [unfold all_internal; repeat constructor|]. split; [vm_compute; reflexivity|].
+  split; [apply stableb_true; vm_compute; reflexivity|]. split; [vm_compute; reflexivity|].
+  split; apply (bool_decide_unpack _); vm_compute; exact I.
+Qed.
+
+(* ---------- three clients: 4 peers, 26425 reachable states ---------- *)
+Definition R3 : list pstate := default [] (explore_h (1000 * 1000) [promoted 3 1] ∅ []).
+Lemma R3_checked_b : (N.of_nat (length R3) =? 26425) && inb (promoted 3 1) R3 && checkb_h (endb 3) R3 = true.
+Proof. vm_cast_no_check (eq_refl true). Qed.
+Lemma R3_checked : N.of_nat (length R3) = 26425 /\ promoted 3 1 ∈ R3 /\ checked (endb 3) R3.
+Proof.
+  pose proof R3_checked_b as H. apply andb_true_iff in H as [H H3]. apply andb_true_iff in H as [H1 H2].
+  split; [apply N.eqb_eq; exact H1|]. split; [apply inb_true; exact H2|apply checkb_h_checked; exact H3].
+Qed.
+
+Theorem C07_three_clients_every_run_repaired :
+  forall tr s, all_internal tr -> run (promoted 3 1) tr = Some s ->
+    (length tr + measure s <= measure (promoted 3 1%N))%nat
+    /\ (stable s -> repaired_outcome s 1 /\ length (pget clients [] s 1) = 3%nat /\
+                    (hosts s = [1] \/ hosts s = [0; 1]) /\ ~ session_ok s 1)
+    /\ (exists tr' s', all_internal tr' /\ run s tr' = Some s' /\ stable s' /\ repaired_outcome s' 1).
+Proof.
+  intros tr s Hall Hrun. destruct R3_checked as (_ & Hs0 & Hc).
+  destruct (check_run _ _ Hc _ _ _ Hs0 Hall Hrun) as [Hin Hle].
+  split; [exact Hle|]. split.
+  - intros Hst. destruct (endb_true _ _ (check_stable _ _ _ Hc Hin Hst)) as (Ho & Hl & Hh).
+    split; [exact Ho|]. split; [exact Hl|]. split; [exact Hh|].
+    apply (repaired_outcome_not_ok s 1 2 Ho); [|discriminate|discriminate].
+    apply (run_dom _ _ _ Hrun). vm_compute. eauto.
+  - destruct (check_completes _ _ Hc _ Hin) as (tr' & s' & H1 & H2 & H3 & _ & H4).
+    exists tr', s'. split; [exact H1|]. split; [exact H2|]. split; [exact H3|]. exact (proj1 (endb_true _ _ H4)).
+Qed.
+Print Assumptions C07_three_clients_every_run_repaired.
+
+Example measure_promoted_3_1 : measure (promoted 3 1) = 64%nat.
+Proof. vm_compute. reflexivity. Qed.
+
+(* three clients, the real-code order: both other clients join 1, the old host keeps its server *)
+Definition ex_three_clients : list pevent :=
+  [EDeliverDown 0 1; ESrvUp 1; EDeliverUp 1 0; ELinkDown 1; ENotify 0; ECliConnecting 0;
+   EDeliverDown 0 2; EDeliverDown 0 3; ECliConnecting 2; ECliConnecting 3;
+   EConnect 0; ENotify 1; ECliDown 1; EVerify 0; EConnect 2; EConnect 3; ENotify 1; ENotify 1;
+   ETimeout 0 2; ETimeout 0 3; ENotify 0; ENotify 0].
+Example ex_three_clients_runs :
+  (fun s => (roles s, stableb s, hosts s, endb 3 s)) <$> run (promoted 3 1) ex_three_clients
+  = Some ([(0, (true, SConnected, [], Some 1, CConnected, true, false, false));
+           (1, (true, SConnected, [0; 2; 3], None, CDisconnected, false, true, false));
+           (3, (false, SDisconnected, [], Some 1, CConnected, true, false, true));
+           (2, (false, SDisconnected, [], Some 1, CConnected, true, false, true))], true, [0; 1], true).
 Proof. vm_compute. reflexivity. Qed.
 
 (* ================================================================================================
-   Part 6: a chain of promotions (two peers): promote 1, then promote 0 back
+   Part 6: a chain of promotions (two peers): promote 1, promote 0 back, promote 1 again, ...
    ================================================================================================ *)
 
 (* The first hand-over has exactly two outcomes.  They differ in ONE bit: whether the kick
    (server.disconnect(1) on the old host) reached peer 1's RenetClient while peer 1 still had its
-   old client transport (ELinkDown 1 before ENotify 1) -- on a real network it does. *)
-Definition finals1 : list pstate := filter (fun s => stableb s = true) R1.
+   old client transport (ELinkDown 1 before ENotify 1) -- on a real network it does.  After the
+   repair that bit no longer matters: the next NewHost handler replaces the RenetClient. *)
+Definition finals (R : list pstate) : list pstate := filter (fun s => stableb s = true) R.
+Definition finals1 : list pstate := finals R1.
 Example finals1_roles :
   roles <$> finals1 = [ [(0, (false, SDisconnected, [], Some 1, CConnected, true, false, false));
                          (1, (true, SConnected, [0], None, CDisconnected, false, true, false))];
@@ -1284,94 +1582,179 @@ Example finals1_roles :
                          (1, (true, SConnected, [0], None, CDisconnected, false, false, false))] ].
 Proof. vm_compute. reflexivity. Qed.
 
-Definition new_host_alive (F : pstate) : bool := negb (pget sticky true F 1).
+(* all stable states reachable from a state of Fs after the request "h promotes k" *)
+Definition next (h k : peer) (Fs : list pstate) : list pstate :=
+  remove_dups (Fs ≫= fun F => finals (default [] (explore 1000 [promote_in F h k] []))).
+Definition finals2 : list pstate := next 1 0 finals1.
+Example finals2_roles :
+  roles <$> finals2 = [ [(0, (true, SConnected, [1], None, CDisconnected, false, false, false));
+                         (1, (false, SDisconnected, [], Some 0, CConnected, true, false, false))];
+                        [(0, (true, SConnected, [1], None, CDisconnected, false, true, false));
+                         (1, (false, SDisconnected, [], Some 0, CConnected, true, false, false))] ].
+Proof. vm_compute. reflexivity. Qed.
+(* the third promotion leads back to the outcomes of the first: the chain closes *)
+Example finals3_eq : next 0 1 finals2 ⊆ finals1 /\ finals1 ⊆ next 0 1 finals2.
+Proof. split; apply (bool_decide_unpack _); vm_compute; exact I. Qed.
 
-Definition chain_good (F s : pstate) : bool := if new_host_alive F then handed_overb s 0 1 else chain_brokenb s 1 0.
-Lemma chain_checked :
-  forallb (fun F => let s0 := promote_in F 1 0 in
+(* one hop "h promotes k" from every state of Fs: the request is accepted, every run terminates, every
+   stable end is handed over to k and lies in Gs *)
+Definition hopb (Fs Gs : list pstate) (h k : peer) : bool :=
+  forallb (fun F => let s0 := promote_in F h k in
                     let R := default [] (explore 1000 [s0] []) in
-                    inb s0 R && checkb (chain_good F) R) finals1 = true.
+                    bool_decide (step F (EPromote h k) = Some s0) && inb s0 R &&
+                    checkb (fun s => handed_overb s k h && inb s Gs) R) Fs.
+
+Lemma hop_sound Fs Gs h k : hopb Fs Gs h k = true -> forall F, F ∈ Fs ->
+  step F (EPromote h k) = Some (promote_in F h k) /\
+  forall tr s, all_internal tr -> run (promote_in F h k) tr = Some s ->
+    (length tr + measure s <= measure (promote_in F h k))%nat /\
+    (stable s -> handed_over s k h /\ s ∈ Gs) /\
+    (exists tr' s', all_internal tr' /\ run s tr' = Some s' /\ stable s' /\ handed_over s' k h).
+Proof.
+  unfold hopb. rewrite forallb_forall. intros Hb F HF.
+  specialize (Hb F (proj1 (elem_of_list_In _ _) HF)). cbv zeta in Hb.
+  apply andb_true_iff in Hb as [Hb Hc]. apply andb_true_iff in Hb as [Hp Hs0].
+  apply bool_decide_eq_true in Hp. apply inb_true in Hs0. apply checkb_checked in Hc.
+  split; [exact Hp|]. intros tr s Hall Hrun.
+  destruct (check_run _ _ Hc _ _ _ Hs0 Hall Hrun) as [Hin Hle].
+  split; [exact Hle|]. split.
+  - intros Hst. pose proof (check_stable _ _ _ Hc Hin Hst) as Hg. apply andb_true_iff in Hg as [Hg1 Hg2].
+    split; [apply handed_overb_true; exact Hg1|apply inb_true; exact Hg2].
+  - destruct (check_completes _ _ Hc _ Hin) as (tr' & s' & H1 & H2 & H3 & _ & H4).
+    exists tr', s'. split; [exact H1|]. split; [exact H2|]. split; [exact H3|].
+    apply handed_overb_true. exact (proj1 (proj1 (andb_true_iff _ _) H4)).
+Qed.
+
+Lemma hop12 : hopb finals1 finals2 1 0 = true.
+Proof. vm_cast_no_check (eq_refl true). Qed.
+Lemma hop21 : hopb finals2 finals1 0 1 = true.
 Proof. vm_cast_no_check (eq_refl true). Qed.
 
-Lemma promote_back_enabled : forallb (fun F => bool_decide (step F (EPromote 1 0) = Some (promote_in F 1 0))) finals1 = true.
-Proof. vm_compute. reflexivity. Qed.
+Lemma finals1_complete tr F : all_internal tr -> run (promoted 1 1) tr = Some F -> stable F -> F ∈ finals1.
+Proof.
+  intros Hall Hrun Hst. destruct (check_run _ _ R1_checked _ _ _ R1_start Hall Hrun) as [Hin _].
+  unfold finals1, finals. apply elem_of_list_filter. split; [apply stableb_true; exact Hst|exact Hin].
+Qed.
 
-(* C07_chain_of_promotions: the roles can be swapped back if and only if the RenetClient of the
-   first promoted peer survived the first hand-over.  If it did not (the normal case), the second
-   promotion ends -- in every interleaving -- with peer 0 hosting nobody, its flag stuck, and peer 1
-   in ClientState::Connecting for ever. *)
-Theorem C07_chain_of_promotions :
+(* C07_chain_of_promotions_repaired (S9 repaired): after the first hand-over -- whichever of its two
+   outcomes, i.e. whether or not the kick reached peer 1's RenetClient -- promoting peer 0 back is
+   accepted, terminates in every interleaving, and EVERY stable end is handed over to 0; from every
+   such end a THIRD promotion (of 1 again) is accepted, terminates, and every stable end is handed
+   over to 1. *)
+Theorem C07_chain_of_promotions_repaired :
   forall tr F, all_internal tr -> run (promoted 1 1) tr = Some F -> stable F ->
     step F (EPromote 1 0) = Some (promote_in F 1 0) /\
     forall tr' s, all_internal tr' -> run (promote_in F 1 0) tr' = Some s ->
       (length tr' + measure s <= measure (promote_in F 1%N 0%N))%nat /\
-      (stable s -> if new_host_alive F then handed_over s 0 1 else chain_broken s 1 0) /\
-      (exists tr'' s', all_internal tr'' /\ run s tr'' = Some s' /\ stable s').
+      (exists tr'' s', all_internal tr'' /\ run s tr'' = Some s' /\ stable s' /\ handed_over s' 0 1) /\
+      (stable s ->
+         handed_over s 0 1 /\
+         step s (EPromote 0 1) = Some (promote_in s 0 1) /\
+         forall tr2 s2, all_internal tr2 -> run (promote_in s 0 1) tr2 = Some s2 ->
+           (length tr2 + measure s2 <= measure (promote_in s 0%N 1%N))%nat /\
+           (stable s2 -> handed_over s2 1 0) /\
+           (exists tr3 s3, all_internal tr3 /\ run s2 tr3 = Some s3 /\ stable s3 /\ handed_over s3 1 0)).
 Proof.
-  intros tr F Hall Hrun Hst.
-  destruct (check_run _ _ R1_checked _ _ _ R1_start Hall Hrun) as [Hin _].
-  assert (HF : F ∈ finals1).
-  { unfold finals1. apply elem_of_list_filter. split; [apply stableb_true; exact Hst|exact Hin]. }
-  pose proof chain_checked as Hc. rewrite forallb_forall in Hc.
-  specialize (Hc F (proj1 (elem_of_list_In _ _) HF)). cbv zeta in Hc.
-  apply andb_true_iff in Hc as [Hs0 Hc]. apply inb_true in Hs0.
-  pose proof promote_back_enabled as Hp. rewrite forallb_forall in Hp.
-  specialize (Hp F (proj1 (elem_of_list_In _ _) HF)). apply bool_decide_eq_true in Hp.
-  split; [exact Hp|]. intros tr' s Hall' Hrun'.
-  destruct (check_run _ _ Hc _ _ _ Hs0 Hall' Hrun') as [Hin' Hle].
-  split; [exact Hle|]. split.
-  - intros Hst'. pose proof (check_stable _ _ _ Hc Hin' Hst') as Hg. unfold chain_good in Hg.
-    destruct (new_host_alive F); [apply handed_overb_true|apply chain_brokenb_true]; exact Hg.
-  - destruct (check_completes _ _ Hc _ Hin') as (tr'' & s' & H1 & H2 & H3 & _). eauto.
+  intros tr F Hall Hrun Hst. pose proof (finals1_complete tr F Hall Hrun Hst) as HF.
+  destruct (hop_sound _ _ _ _ hop12 F HF) as [Hp Hhop]. split; [exact Hp|].
+  intros tr' s Hall' Hrun'. destruct (Hhop tr' s Hall' Hrun') as (Hle & Hstab & Hcompl).
+  split; [exact Hle|]. split; [exact Hcompl|]. intros Hst'. destruct (Hstab Hst') as [Hho HG].
+  split; [exact Hho|]. destruct (hop_sound _ _ _ _ hop21 s HG) as [Hp2 Hhop2]. split; [exact Hp2|].
+  intros tr2 s2 Hall2 Hrun2. destruct (Hhop2 tr2 s2 Hall2 Hrun2) as (Hle2 & Hstab2 & Hcompl2).
+  split; [exact Hle2|]. split; [|exact Hcompl2]. intros Hst2. exact (proj1 (Hstab2 Hst2)).
 Qed.
-Print Assumptions C07_chain_of_promotions.
+Print Assumptions C07_chain_of_promotions_repaired.
 
-(* both cases occur *)
-Example chain_alive_reachable :
-  exists tr F, all_internal tr /\ run (promoted 1 1) tr = Some F /\ stable F /\ new_host_alive F = true.
+(* the full chain statement of Promotion.v *)
+Theorem C07_chain : C07_chain_statement.
 Proof.
-  exists (tail ex_one_client), (default (session 1) (run (promoted 1 1) (tail ex_one_client))).
-  split; [unfold all_internal; repeat constructor|]. split; [vm_compute; reflexivity|].
-  split; [apply stableb_true; vm_compute; reflexivity|vm_compute; reflexivity].
+  intros tr F Hall Hrun Hst tr' s Hall' Hrun' Hst'.
+  destruct (C07_chain_of_promotions_repaired tr F Hall Hrun Hst) as [_ H].
+  destruct (H tr' s Hall' Hrun') as (_ & _ & Hs). exact (proj1 (Hs Hst')).
 Qed.
-Example chain_dead_reachable :
-  exists tr F, all_internal tr /\ run (promoted 1 1) tr = Some F /\ stable F /\ new_host_alive F = false.
+Print Assumptions C07_chain.
+
+(* ---------- chains of ANY length ---------- *)
+
+(* the host after i promotions: 1, 0, 1, 0, ... *)
+Definition host_at (i : nat) : peer := if Nat.odd i then 1 else 0.
+(* F is a stable end of the i-th promotion of a chain that alternates between the two peers *)
+Inductive chain_end : nat -> pstate -> Prop :=
+| chain_first tr F :
+    all_internal tr -> run (promoted 1 1) tr = Some F -> stable F -> chain_end 1 F
+| chain_next i F tr s :
+    chain_end i F -> all_internal tr ->
+    run (promote_in F (host_at i) (host_at (S i))) tr = Some s -> stable s -> chain_end (S i) s.
+
+Definition chain_set (i : nat) : list pstate := if Nat.odd i then finals1 else finals2.
+
+Lemma host_at_succ i : host_at i = (if Nat.odd i then 1 else 0) /\ host_at (S i) = (if Nat.odd i then 0 else 1).
 Proof.
-  exists (tail ex_one_client_kicked), (default (session 1) (run (promoted 1 1) (tail ex_one_client_kicked))).
-  split; [unfold all_internal; repeat constructor|]. split; [vm_compute; reflexivity|].
-  split; [apply stableb_true; vm_compute; reflexivity|vm_compute; reflexivity].
+  unfold host_at. split; [reflexivity|]. rewrite Nat.odd_succ, <- Nat.negb_odd. destruct (Nat.odd i); reflexivity.
+Qed.
+Lemma chain_set_succ i : chain_set (S i) = if Nat.odd i then finals2 else finals1.
+Proof. unfold chain_set. rewrite Nat.odd_succ, <- Nat.negb_odd. destruct (Nat.odd i); reflexivity. Qed.
+
+Lemma hop_any i : hopb (chain_set i) (chain_set (S i)) (host_at i) (host_at (S i)) = true.
+Proof.
+  rewrite chain_set_succ. destruct (host_at_succ i) as [-> ->]. unfold chain_set.
+  destruct (Nat.odd i); [exact hop12|exact hop21].
 Qed.
 
-Theorem C07_chain_refuted : ~ C07_chain_statement.
+Lemma chain_end_in i F : chain_end i F -> F ∈ chain_set i.
 Proof.
-  intros Hst. destruct chain_dead_reachable as (tr & F & Hall & Hrun & HstF & Hdead).
-  destruct (C07_chain_of_promotions tr F Hall Hrun HstF) as [_ Hc].
-  destruct (Hc [] (promote_in F 1 0) ltac:(constructor) eq_refl) as (_ & _ & tr'' & s' & Hall'' & Hrun'' & Hst').
-  pose proof (Hst tr F Hall Hrun HstF tr'' s' Hall'' Hrun'' Hst') as Hgood.
-  destruct (Hc tr'' s' Hall'' Hrun'') as (_ & Hbad & _). specialize (Hbad Hst'). rewrite Hdead in Hbad.
-  destruct Hgood as [(x & y & Hps & _ & Hx & _) _]. destruct Hbad as [(x' & y' & Hps' & _ & _ & _ & Hcl & _) _].
-  assert (H0 : ps s' !! (0 : peer) = Some x) by (rewrite Hps; apply lookup_insert).
-  assert (H0' : ps s' !! (0 : peer) = Some x') by (rewrite Hps'; apply lookup_insert).
-  rewrite H0 in H0'. injection H0' as <-. destruct Hx as (_ & _ & _ & _ & Hcl' & _). congruence.
+  induction 1 as [tr F Hall Hrun Hst|i F tr s _ IH Hall Hrun Hst].
+  - exact (finals1_complete tr F Hall Hrun Hst).
+  - destruct (hop_sound _ _ _ _ (hop_any i) F IH) as [_ Hhop].
+    destruct (Hhop tr s Hall Hrun) as (_ & Hstab & _). exact (proj2 (Hstab Hst)).
 Qed.
-Print Assumptions C07_chain_refuted.
 
-(* the failing second promotion, event by event *)
-Definition ex_chain_broken : list pevent :=
-  tail ex_one_client_kicked ++
-  [EPromote 1 0; EDeliverDown 1 0; ESrvUp 0; EDeliverUp 0 1; ENotify 1; ESrvDown 1; ECliConnecting 1; ELinkDown 0].
-Example ex_chain_broken_runs :
-  (fun s => (roles s, stableb s, chain_brokenb s 1 0)) <$> run (promoted 1 1) ex_chain_broken
-  = Some ([(0, (true, SConnected, [], Some 1, CConnected, false, true, true));
-           (1, (false, SDisconnected, [], Some 0, CConnecting, false, true, false))], true, true).
+Lemma chain_sets_handed_over : forallb (fun s => handed_overb s 1 0) finals1 && forallb (fun s => handed_overb s 0 1) finals2 = true.
 Proof. vm_compute. reflexivity. Qed.
-(* and the succeeding one (possible only if the kick notice lost the race in the first hand-over) *)
-Definition ex_chain_ok : list pevent :=
-  tail ex_one_client ++
-  [EPromote 1 0; EDeliverDown 1 0; ESrvUp 0; EDeliverUp 0 1; ENotify 1; ESrvDown 1; ECliConnecting 1;
+
+(* the chain never breaks: after ANY number of alternating promotions the session is handed over to
+   the current host, the next promotion request is accepted, every run after it terminates (measure),
+   and every stable end of it is again handed over *)
+Theorem C07_chain_forever i F : chain_end i F ->
+  handed_over F (host_at i) (host_at (S i)) /\
+  step F (EPromote (host_at i) (host_at (S i))) = Some (promote_in F (host_at i) (host_at (S i))) /\
+  forall tr s, all_internal tr -> run (promote_in F (host_at i) (host_at (S i))) tr = Some s ->
+    (length tr + measure s <= measure (promote_in F (host_at i) (host_at (S i))))%nat /\
+    (stable s -> handed_over s (host_at (S i)) (host_at i) /\ chain_end (S i) s) /\
+    (exists tr' s', all_internal tr' /\ run s tr' = Some s' /\ stable s' /\ handed_over s' (host_at (S i)) (host_at i)).
+Proof.
+  intros Hce. pose proof (chain_end_in i F Hce) as HF.
+  destruct (hop_sound _ _ _ _ (hop_any i) F HF) as [Hp Hhop]. split; [|split; [exact Hp|]].
+  - pose proof chain_sets_handed_over as Hb. apply andb_true_iff in Hb as [Hb1 Hb2].
+    rewrite forallb_forall in Hb1. rewrite forallb_forall in Hb2.
+    destruct (host_at_succ i) as [-> ->]. unfold chain_set in HF. apply elem_of_list_In in HF.
+    destruct (Nat.odd i); apply handed_overb_true; [apply Hb1|apply Hb2]; exact HF.
+  - intros tr s Hall Hrun. destruct (Hhop tr s Hall Hrun) as (Hle & Hstab & Hcompl).
+    split; [exact Hle|]. split; [|exact Hcompl]. intros Hst. split; [exact (proj1 (Hstab Hst))|].
+    eapply chain_next; eauto.
+Qed.
+Print Assumptions C07_chain_forever.
+
+(* non-vacuity: the real-code schedule "promote 1; promote 0; promote 1" (Promotion.ex_chain3), with the
+   kick reaching the RenetClient of the promoted peer every time *)
+Definition run_from (s : pstate) (tr : list pevent) : pstate := default s (run s tr).
+Definition hop1 : list pevent := tail ex_one_client_kicked.
+Definition hop2 : list pevent :=
+  [EDeliverDown 1 0; ESrvUp 0; EDeliverUp 0 1; ELinkDown 0; ENotify 1; ESrvDown 1; ECliConnecting 1;
    EConnect 1; ENotify 0; ECliDown 0; EVerify 1; EDeliverUp 1 0].
-Example ex_chain_ok_runs :
-  (fun s => (roles s, stableb s, bool_decide (s = session 1))) <$> run (promoted 1 1) ex_chain_ok
-  = Some ([(0, (true, SConnected, [1], None, CDisconnected, false, false, false));
-           (1, (false, SDisconnected, [], Some 0, CConnected, true, false, false))], true, true).
-Proof. vm_compute. reflexivity. Qed.
+Definition hop3 : list pevent :=
+  [EDeliverDown 0 1; ESrvUp 1; EDeliverUp 1 0; ELinkDown 1; ENotify 0; ESrvDown 0; ECliConnecting 0;
+   EConnect 0; ENotify 1; ECliDown 1; EVerify 0; EDeliverUp 0 1].
+Definition F1 : pstate := run_from (promoted 1 1) hop1.
+Definition F2 : pstate := run_from (promote_in F1 1 0) hop2.
+Definition F3 : pstate := run_from (promote_in F2 0 1) hop3.
+Example chain_end_3 : chain_end 3 F3 /\ pget sticky false F1 1 = true /\ pget sticky false F2 0 = true /\
+                      handed_over F2 0 1 /\ handed_over F3 1 0.
+Proof.
+  assert (H1 : chain_end 1 F1).
+  { apply (chain_first hop1); [unfold all_internal; repeat constructor|vm_compute; reflexivity|apply stableb_true; vm_compute; reflexivity]. }
+  assert (H2 : chain_end 2 F2).
+  { apply (chain_next 1 F1 hop2); [exact H1|unfold all_internal; repeat constructor|vm_compute; reflexivity|apply stableb_true; vm_compute; reflexivity]. }
+  split; [|split; [vm_compute; reflexivity|split; [vm_compute; reflexivity|split; apply handed_overb_true; vm_compute; reflexivity]]].
+  apply (chain_next 2 F2 hop3); [exact H2|unfold all_internal; repeat constructor|vm_compute; reflexivity|apply stableb_true; vm_compute; reflexivity].
+Qed.
